@@ -229,6 +229,14 @@ theorem Has.grow {a a' : Array PNode} (h : Grow a a') {r s : Nat} {leaf : Bool} 
     Has (ndOf a' r) s leaf link ssid tmat lp ci c :=
   ⟨by rw [h.stable r hr]; exact hh.1, fun x hx => h.ctxt r hr x (hh.2 x hx)⟩
 
+theorem Has.fields {n : PNode} {s : Nat} {leaf : Bool} {link ssid tmat : Nat} {lp : Int} {ci : Nat} {c : Option Nat}
+    (h : Has n s leaf link ssid tmat lp ci c) :
+    n.owner = s ∧ n.leaf = leaf ∧ n.link = link ∧ n.ssid = ssid ∧ n.tmatid = tmat ∧ n.logs2prob = lp ∧ n.ciExt = ci := by
+  have := h.1
+  unfold core at this
+  simp only [Prod.mk.injEq] at this
+  exact this
+
 /-- every context bit is set (`fsg_pnode_add_all_ctxt`) -/
 def AllCtx (n : PNode) : Prop := ∀ c, c < 32 * SSVerif.Generated.Search.ctxtBvsz → n.ctxt.testBit c = true
 
@@ -332,5 +340,2094 @@ theorem singleStep_grow {g : Fsg} {li : LexIn} {s lid ci : Nat} {logp : Int} {a0
           rw [hnew]
           show (1 <<< l).testBit l = true
           rw [testBit_bit]; simp
+
+/-! ### every step of the construction only grows the array (`Grow`), and the root chain of the state -/
+
+def RootMono (a : Array PNode) (root : Option Nat) (a' : Array PNode) (root' : Option Nat) : Prop :=
+  ∀ x, Reach a root x → Reach a' root' x
+
+theorem RootMono.trans {a b c : Array PNode} {r1 r2 r3 : Option Nat} (h1 : RootMono a r1 b r2) (h2 : RootMono b r2 c r3) :
+    RootMono a r1 c r3 := fun x hx => h2 x (h1 x hx)
+
+theorem rootMono_same {a a' : Array PNode} {root : Option Nat} (h : Grow a a') (hv : ∀ y, root = some y → y < a.size) :
+    RootMono a root a' root := fun _ hx => h.reachO hv hx
+
+/-- a new root pnode whose `sibling` is the old root -/
+theorem rootMono_push {g : Fsg} {a : Array PNode} (inv : GInv g a) {root : Option Nat} (hv : ∀ y, root = some y → y < a.size)
+    {n : PNode} (hn : n.sibling = root) : RootMono a root (a.push n) (some a.size) := by
+  intro x hx
+  refine Reach.next ?_
+  rw [ndOf_push_eq, hn]
+  exact (grow_push inv n).reachO hv hx
+
+theorem singleStep_grow0 {g : Fsg} {li : LexIn} {s lid ci : Nat} {logp : Int} {a1 : Array PNode} (st : LcSt) (lc : Nat)
+    (h : LcInv g s a1 st) :
+    Grow st.nodes (singleStep li s lid ci logp st lc).nodes ∧
+    RootMono st.nodes st.root (singleStep li s lid ci logp st lc).nodes (singleStep li s lid ci logp st lc).root := by
+  have hv : ∀ y, st.root = some y → y < st.nodes.size := fun y hy => (h.root y hy).1
+  unfold singleStep
+  simp only
+  split
+  · exact ⟨grow_addCtxt _ _ _, rootMono_same (grow_addCtxt _ _ _) hv⟩
+  · exact ⟨grow_push h.inv _, rootMono_push h.inv hv rfl⟩
+
+theorem rootStep_grow0 {g : Fsg} {li : LexIn} {s ci rc : Nat} {a1 : Array PNode} (st : LcSt) (lc : Nat)
+    (h : LcInv g s a1 st) :
+    Grow st.nodes (rootStep li s ci rc st lc).nodes ∧
+    RootMono st.nodes st.root (rootStep li s ci rc st lc).nodes (rootStep li s ci rc st lc).root := by
+  have hv : ∀ y, st.root = some y → y < st.nodes.size := fun y hy => (h.root y hy).1
+  unfold rootStep
+  simp only
+  split
+  · exact ⟨grow_addCtxt _ _ _, rootMono_same (grow_addCtxt _ _ _) hv⟩
+  · refine ⟨(grow_push h.inv _).trans (grow_addCtxt _ _ _), ?_⟩
+    have h1 := rootMono_push h.inv hv (n := rootNode li s ci rc st.root lc) rfl
+    exact h1.trans (rootMono_same (grow_addCtxt _ _ _) (fun y hy => by cases hy; rw [Array.size_push]; omega))
+
+theorem leafStep_grow0 {g : Fsg} {li : LexIn} {s lid ci lc p : Nat} {logp : Int} {a0 : Array PNode} (st : RcSt) (rc : Nat)
+    (h : RcInv g s a0 st) : Grow st.nodes (leafStep li s lid ci lc p logp st rc).nodes := by
+  unfold leafStep
+  split
+  · exact grow_addCtxt _ _ _
+  · exact (grow_push h.inv _).trans (grow_addCtxt _ _ _)
+
+theorem grow_setSuccAll (id : Nat) : ∀ (l : List Nat) (a : Array PNode), Grow a (l.foldl (fun a r => setSucc a r (some id)) a) := by
+  intro l
+  induction l with
+  | nil => intro a; exact Grow.refl a
+  | cons r rest ih => intro a; exact (grow_setSucc a r _).trans (ih _)
+
+/-- the end of a chain of a ranked, closed array has no sibling -/
+theorem lastOf_none {g : Fsg} {a : Array PNode} (inv : GInv g a) (hr : Ranked a) {c : Nat} (hc : c < a.size) :
+    (ndOf a (lastOf a a.size c)).sibling = none :=
+  lastOf_end a a.size c (ranked_ends inv hr hc)
+
+theorem attachOne_grow0 {g : Fsg} {a : Array PNode} (inv : GInv g a) (hr : Ranked a) {pred : Nat} (hp : pred < a.size)
+    (head : Option Nat) : Grow a (attachOne a pred head) := by
+  unfold attachOne
+  split
+  · exact grow_setSucc _ _ _
+  · rename_i c hc
+    exact (grow_setSibling (lastOf_none inv hr (inv.succClosed hp hc))).1
+
+theorem attachRoots_grow0 {g : Fsg} {s : Nat} {head : Option Nat} : ∀ (l : List Nat) (a : Array PNode), GInv g a → Ranked a →
+    (∀ x ∈ l, Valid a s x) → OValid a s head → Grow a (attachRoots a head l) := by
+  intro l
+  induction l with
+  | nil => intro a _ _ _ _; exact Grow.refl a
+  | cons r rest ih =>
+    intro a inv hr hl hh
+    have hrv := hl r (List.mem_cons_self ..)
+    simp only [attachRoots]
+    split
+    · obtain ⟨hi, he⟩ := ginv_setSucc inv hrv hh
+      exact (grow_setSucc a r head).trans (ih _ hi (ranked_setSucc hr _ _)
+        (fun x hx => (hl x (List.mem_cons_of_mem _ hx)).ext he) (hh.ext he))
+    · rename_i c hc
+      exact (grow_setSibling (lastOf_none inv hr (inv.succClosed hrv.1 hc))).1
+
+theorem phoneStep_grow0 {g : Fsg} {li : LexIn} {s lid : Nat} {w : WordInfo} {logp : Int} {rclist lcl : List Nat}
+    {a0 : Array PNode} (hl : lid < g.links.size ∧ (g.link lid).src = s ∧ 0 ≤ (g.link lid).wid)
+    (hlcl : ∀ x ∈ lcl, Valid a0 s x) (st : PhSt) (p : Nat) (h : PhInv g s a0 st) (hr : Ranked st.nodes) :
+    Grow st.nodes (phoneStep li s lid w logp rclist lcl st p).nodes := by
+  have hlcl' : ∀ x ∈ lcl, Valid st.nodes s x := fun x hx => (hlcl x hx).ext h.ext
+  unfold phoneStep
+  simp only
+  split
+  · split
+    · exact Grow.refl _
+    · split
+      · exact (grow_push h.inv _).trans (grow_setSuccAll _ lcl _)
+      · exact (grow_push h.inv _).trans (grow_setSucc _ _ _)
+  · have hrr := foldl_inv (fun st' => (RcInv g s st.nodes st' ∧ RcR st.nodes st') ∧ Grow st.nodes st'.nodes)
+        (leafStep li s lid (w.pron.getD p 0) (w.pron.getD (p - 1) 0) p logp) rclist { nodes := st.nodes }
+        ⟨⟨⟨h.inv, Ext.refl _, nil_all, nil_all⟩,
+          ⟨hr, Nat.le_refl _, fun _ _ => rfl, fun _ _ => rfl, fun x h1 h2 => absurd h2 (Nat.not_lt.2 h1), nil_all⟩⟩, Grow.refl _⟩
+        (fun st' rc _ h' => ⟨⟨leafStep_inv hl st' rc h'.1.1, leafStep_ranked st' rc h'.1.1 h'.1.2⟩,
+          h'.2.trans (leafStep_grow0 st' rc h'.1.1)⟩)
+    obtain ⟨⟨hI, hR⟩, hG⟩ := hrr
+    have hhd : OValid _ s (rclist.foldl (leafStep li s lid (w.pron.getD p 0) (w.pron.getD (p - 1) 0) p logp)
+        { nodes := st.nodes }).rcl.head? := fun x hx => hI.rcl x (head?_mem hx)
+    split
+    · exact hG.trans (attachRoots_grow0 lcl _ hI.inv hR.ranked (fun x hx => (hlcl' x hx).ext hI.ext) hhd)
+    · exact hG.trans (attachOne_grow0 hI.inv hR.ranked (h.pred.ext hI.ext).1 _)
+
+/-- **`psubtree_add_trans` only grows the array and the root chain** -/
+theorem addTrans_grow0 {g : Fsg} {li : LexIn} {s : Nat} {lclist rclist : List Nat} {a0 : Array PNode} (hlc : lclist ≠ [])
+    (w0 : Bld) (lid : Nat) (hl : lid < g.links.size ∧ (g.link lid).src = s ∧ 0 ≤ (g.link lid).wid)
+    (h : WInv g s a0 w0) (hr : WR w0) :
+    Grow w0.nodes (addTrans li g s lclist rclist w0 lid).nodes ∧
+    RootMono w0.nodes w0.root (addTrans li g s lclist rclist w0 lid).nodes (addTrans li g s lclist rclist w0 lid).root := by
+  have hv : ∀ y, w0.root = some y → y < w0.nodes.size := fun y hy => (h.root y hy).1
+  unfold addTrans
+  simp only
+  split
+  · split
+    · have hf := foldl_inv (fun st => LcInv g s w0.nodes st ∧ Grow w0.nodes st.nodes ∧ RootMono w0.nodes w0.root st.nodes st.root)
+          (singleStep li s lid ((li.word (g.link lid).wid.toNat).pron.headD 0) (g.link lid).logp) lclist
+          { nodes := w0.nodes, root := w0.root, lcl := [] }
+          ⟨⟨h.inv, Ext.refl _, h.root, nil_all, nil_all⟩, Grow.refl _, fun _ hx => hx⟩
+          (fun st lc _ h' => ⟨singleStep_inv hl st lc h'.1, h'.2.1.trans (singleStep_grow0 st lc h'.1).1,
+            h'.2.2.trans (singleStep_grow0 st lc h'.1).2⟩)
+      exact ⟨hf.2.1, hf.2.2⟩
+    · exact ⟨grow_push h.inv _, rootMono_push h.inv hv rfl⟩
+  · have hfresh : ∀ ci rc, ((LcInv g s w0.nodes (lclist.foldl (rootStep li s ci rc) { nodes := w0.nodes, root := w0.root, lcl := [] }) ∧
+        LcR (lclist.foldl (rootStep li s ci rc) { nodes := w0.nodes, root := w0.root, lcl := [] })) ∧
+        Grow w0.nodes (lclist.foldl (rootStep li s ci rc) { nodes := w0.nodes, root := w0.root, lcl := [] }).nodes ∧
+        RootMono w0.nodes w0.root (lclist.foldl (rootStep li s ci rc) { nodes := w0.nodes, root := w0.root, lcl := [] }).nodes
+          (lclist.foldl (rootStep li s ci rc) { nodes := w0.nodes, root := w0.root, lcl := [] }).root) ∧
+        (lclist.foldl (rootStep li s ci rc) { nodes := w0.nodes, root := w0.root, lcl := [] }).root.isSome = true := by
+      intro ci rc
+      refine ⟨foldl_inv (fun st => (LcInv g s w0.nodes st ∧ LcR st) ∧ Grow w0.nodes st.nodes ∧ RootMono w0.nodes w0.root st.nodes st.root)
+        _ lclist _ ⟨⟨⟨h.inv, Ext.refl _, h.root, nil_all, nil_all⟩, ⟨hr.ranked, List.nodup_nil⟩⟩, Grow.refl _, fun _ hx => hx⟩
+        (fun st lc _ h' => ⟨⟨rootStep_inv st lc h'.1.1, rootStep_ranked st lc h'.1.1 h'.1.2⟩,
+          h'.2.1.trans (rootStep_grow0 st lc h'.1.1).1, h'.2.2.trans (rootStep_grow0 st lc h'.1.1).2⟩), ?_⟩
+      cases lclist with
+      | nil => exact absurd rfl hlc
+      | cons x rest =>
+        simp only [List.foldl_cons]
+        exact (rootFold_root li s ci rc rest _ (rootStep_root li s ci rc _ x (Or.inl rfl))).2
+    have key : ∀ (a1 : Array PNode) (lcl : List Nat) (pred : Nat), GInv g a1 → (∀ x ∈ lcl, Valid a1 s x) → lcl.Nodup →
+        Valid a1 s pred → Ranked a1 →
+        Grow a1 (((List.range (li.word (g.link lid).wid.toNat).pron.length).drop 1).foldl
+          (phoneStep li s lid (li.word (g.link lid).wid.toNat) (g.link lid).logp rclist lcl) { nodes := a1, pred }).nodes := by
+      intro a1 lcl pred h1 hlcl hnd hpred hrk
+      exact (foldl_inv (fun st => (PhInv g s a1 st ∧ Ranked st.nodes) ∧ Grow a1 st.nodes) _ _ _
+        ⟨⟨⟨h1, Ext.refl _, hpred⟩, hrk⟩, Grow.refl _⟩
+        (fun st p _ h' => ⟨⟨phoneStep_inv hl hlcl st p h'.1.1, phoneStep_ranked hl hlcl hnd st p h'.1.1 h'.1.2⟩,
+          h'.2.trans (phoneStep_grow0 hl hlcl st p h'.1.1 h'.1.2)⟩)).2
+    split
+    · rename_i i e hf
+      have hmem := findG_mem _ _ _ _ _ _ hf
+      split
+      · rename_i hne
+        have hpred : Valid w0.nodes s (e.list.headD 0) := by
+          cases hel : e.list with
+          | nil => rw [hel] at hne; simp at hne
+          | cons y ys => exact h.glists e hmem y (by rw [hel]; exact List.mem_cons_self ..)
+        have hG := key w0.nodes e.list (e.list.headD 0) h.inv (fun x hx => h.glists e hmem x hx) (hr.nodup e hmem) hpred hr.ranked
+        exact ⟨hG, rootMono_same hG hv⟩
+      · obtain ⟨⟨⟨hI, hR⟩, hG, hM⟩, hsome⟩ := hfresh ((li.word (g.link lid).wid.toNat).pron.headD 0) ((li.word (g.link lid).wid.toNat).pron.getD 1 0)
+        have hG2 := key _ _ ((lclist.foldl (rootStep li s ((li.word (g.link lid).wid.toNat).pron.headD 0)
+            ((li.word (g.link lid).wid.toNat).pron.getD 1 0)) { nodes := w0.nodes, root := w0.root, lcl := [] }).root.getD 0)
+          hI.inv hI.lcl hR.nodup (by
+            cases hroot : (lclist.foldl (rootStep li s ((li.word (g.link lid).wid.toNat).pron.headD 0)
+                ((li.word (g.link lid).wid.toNat).pron.getD 1 0)) { nodes := w0.nodes, root := w0.root, lcl := [] }).root with
+            | none => rw [hroot] at hsome; cases hsome
+            | some r => exact hI.root r hroot) hR.ranked
+        exact ⟨hG.trans hG2, hM.trans (rootMono_same hG2 (fun y hy => (hI.root y hy).1))⟩
+    · obtain ⟨⟨⟨hI, hR⟩, hG, hM⟩, hsome⟩ := hfresh ((li.word (g.link lid).wid.toNat).pron.headD 0) ((li.word (g.link lid).wid.toNat).pron.getD 1 0)
+      have hG2 := key _ _ ((lclist.foldl (rootStep li s ((li.word (g.link lid).wid.toNat).pron.headD 0)
+            ((li.word (g.link lid).wid.toNat).pron.getD 1 0)) { nodes := w0.nodes, root := w0.root, lcl := [] }).root.getD 0)
+          hI.inv hI.lcl hR.nodup (by
+          cases hroot : (lclist.foldl (rootStep li s ((li.word (g.link lid).wid.toNat).pron.headD 0)
+              ((li.word (g.link lid).wid.toNat).pron.getD 1 0)) { nodes := w0.nodes, root := w0.root, lcl := [] }).root with
+          | none => rw [hroot] at hsome; cases hsome
+          | some r => exact hI.root r hroot) hR.ranked
+      exact ⟨hG.trans hG2, hM.trans (rootMono_same hG2 (fun y hy => (hI.root y hy).1))⟩
+
+/-! ### single-phone words and fillers: a root that is a leaf, for every left context -/
+
+/-- arc `lid` (a single-phone word) is in the root chain `root` of state `s`: a filler as one leaf that accepts every
+context and presents silence; any other word as, for every left context, a leaf with the ssid of that context -/
+def SingleOK (li : LexIn) (g : Fsg) (s : Nat) (lclist : List Nat) (a : Array PNode) (root : Option Nat) (lid : Nat) : Prop :=
+  if (li.word (g.link lid).wid.toNat).dictFiller then
+    ∃ r, r < a.size ∧ Reach a root r ∧
+      Has (ndOf a r) s true lid (li.ciSsid ((li.word (g.link lid).wid.toNat).pron.headD 0))
+        (li.tmat ((li.word (g.link lid).wid.toNat).pron.headD 0))
+        (((g.link lid).logp >>> li.shift) + li.wip + li.pip) li.sil none ∧ AllCtx (ndOf a r)
+  else
+    ∀ lc ∈ lclist, ∃ r, r < a.size ∧ Reach a root r ∧
+      Has (ndOf a r) s true lid (li.lrdiph ((li.word (g.link lid).wid.toNat).pron.headD 0) lc)
+        (li.tmat ((li.word (g.link lid).wid.toNat).pron.headD 0))
+        (((g.link lid).logp >>> li.shift) + li.wip + li.pip) ((li.word (g.link lid).wid.toNat).pron.headD 0) (some lc)
+
+theorem SingleOK.mono {li : LexIn} {g : Fsg} {s : Nat} {lclist : List Nat} {a a' : Array PNode} {root root' : Option Nat} {lid : Nat}
+    (h : SingleOK li g s lclist a root lid) (hg : Grow a a') (hm : RootMono a root a' root') :
+    SingleOK li g s lclist a' root' lid := by
+  unfold SingleOK at h ⊢
+  split
+  · rename_i hf
+    simp only [hf, if_true] at h
+    obtain ⟨r, h1, h2, h3, h4⟩ := h
+    exact ⟨r, Nat.lt_of_lt_of_le h1 hg.size, hm r h2, h3.grow hg h1, h4.grow hg h1⟩
+  · rename_i hf
+    simp only [hf] at h
+    intro lc hlc
+    obtain ⟨r, h1, h2, h3⟩ := h lc hlc
+    exact ⟨r, Nat.lt_of_lt_of_le h1 hg.size, hm r h2, h3.grow hg h1⟩
+
+theorem addTrans_single {g : Fsg} {li : LexIn} {s : Nat} {lclist rclist : List Nat} {a0 : Array PNode}
+    (w0 : Bld) (lid : Nat) (hl : lid < g.links.size ∧ (g.link lid).src = s ∧ 0 ≤ (g.link lid).wid)
+    (h : WInv g s a0 w0) (h1 : (li.word (g.link lid).wid.toNat).pron.length = 1) :
+    SingleOK li g s lclist (addTrans li g s lclist rclist w0 lid).nodes (addTrans li g s lclist rclist w0 lid).root lid := by
+  unfold addTrans SingleOK
+  simp only [h1, if_true]
+  by_cases hf : (li.word (g.link lid).wid.toNat).dictFiller = true
+  · simp only [hf, Bool.not_true, Bool.false_eq_true, if_false, if_true]
+    refine ⟨w0.nodes.size, by rw [Array.size_push]; omega, Reach.here, ?_, ?_⟩
+    · rw [ndOf_push_eq]; exact ⟨rfl, fun x hx => by cases hx⟩
+    · rw [ndOf_push_eq]; exact allCtx_ctxtAll rfl
+  · have hf' : (li.word (g.link lid).wid.toNat).dictFiller = false := by simpa using hf
+    simp only [hf', Bool.not_false, if_true, Bool.false_eq_true, if_false]
+    have hfold := foldl_inv_prefix
+      (fun done st => LcInv g s w0.nodes st ∧ LcG li s lid ((li.word (g.link lid).wid.toNat).pron.headD 0) (g.link lid).logp
+        w0.nodes w0.root done st)
+      (singleStep li s lid ((li.word (g.link lid).wid.toNat).pron.headD 0) (g.link lid).logp) lclist []
+      { nodes := w0.nodes, root := w0.root, lcl := [] }
+      ⟨⟨h.inv, Ext.refl _, h.root, nil_all, nil_all⟩, ⟨Grow.refl _, fun _ hx => hx, nil_all, nil_all, nil_all⟩⟩
+      (fun d st lc _ h' => ⟨singleStep_inv hl st lc h'.1, singleStep_grow st lc h'.1 h'.2⟩)
+    simp only [List.nil_append] at hfold
+    obtain ⟨hI, hG⟩ := hfold
+    intro lc hlc
+    obtain ⟨r, hrm, hr⟩ := hG.cover lc hlc
+    exact ⟨r, (hI.lcl r hrm).1, hG.lclReach r hrm, hr⟩
+
+/-! ### one state, all states -/
+
+/-- the word arcs leaving `s`, in the order `fsg_psubtree_init` processes them -/
+def stateArcs (g : Fsg) (s : Nat) : List Nat := (arcsOf g s).filter fun lid => 0 ≤ (g.link lid).wid
+
+theorem mem_stateArcs {g : Fsg} {s lid : Nat} (h : lid ∈ stateArcs g s) :
+    lid < g.links.size ∧ (g.link lid).src = s ∧ 0 ≤ (g.link lid).wid := by
+  have h1 := List.mem_filter.1 h
+  have h2 := List.mem_filter.1 h1.1
+  exact ⟨List.mem_range.1 h2.1, by simpa using h2.2, by simpa using h1.2⟩
+
+theorem buildState_single {g : Fsg} {li : LexIn} {lcs rcs : Array Nat} {nodes : Array PNode} {s : Nat}
+    (hlc : ctxList li (lcs.getD s 0) ≠ []) (inv : GInv g nodes) (hr : Ranked nodes) :
+    Grow nodes (buildState li g lcs rcs nodes s).1 ∧
+    ∀ lid ∈ stateArcs g s, (li.word (g.link lid).wid.toNat).pron.length = 1 →
+      SingleOK li g s (ctxList li (lcs.getD s 0)) (buildState li g lcs rcs nodes s).1 (buildState li g lcs rcs nodes s).2 lid := by
+  have h := foldl_inv_prefix
+    (fun done w => (WInv g s nodes w ∧ WR w) ∧ Grow nodes w.nodes ∧
+      ∀ lid ∈ done, (li.word (g.link lid).wid.toNat).pron.length = 1 →
+        SingleOK li g s (ctxList li (lcs.getD s 0)) w.nodes w.root lid)
+    (fun w lid => addTrans li g s (ctxList li (lcs.getD s 0)) (ctxList li (rcs.getD (g.link lid).dst 0)) w lid)
+    (stateArcs g s) [] { nodes := nodes }
+    ⟨⟨⟨inv, Ext.refl _, ovalid_none _ _, nil_all⟩, ⟨hr, nil_all⟩⟩, Grow.refl _, nil_all⟩
+    (fun d w lid hm hw => by
+      have hl := mem_stateArcs hm
+      obtain ⟨hG, hM⟩ := addTrans_grow0 (li := li) (rclist := ctxList li (rcs.getD (g.link lid).dst 0)) hlc w lid hl hw.1.1 hw.1.2
+      refine ⟨⟨addTrans_inv hlc w lid hl hw.1.1, addTrans_ranked hlc w lid hl hw.1.1 hw.1.2⟩, hw.2.1.trans hG, ?_⟩
+      intro x hx h1
+      rcases List.mem_append.1 hx with h2 | h2
+      · exact (hw.2.2 x h2 h1).mono hG hM
+      · simp only [List.mem_singleton] at h2
+        subst h2
+        exact addTrans_single w x hl hw.1.1 h1)
+  simp only [List.nil_append] at h
+  exact ⟨h.2.1, h.2.2⟩
+
+/-- from the arcs of one state to the arcs of all states: a per-arc fact `Q s a root lid` that `fsg_psubtree_init`
+establishes for the arcs of its state and that is kept by everything built later -/
+theorem buildFold_arcs (li : LexIn) (g : Fsg) (hsil : li.sil < li.nCi) (R : Array PNode → Array PNode → Prop)
+    (_hRG : ∀ a a', R a a' → Grow a a') (Q : Nat → Array PNode → Option Nat → Nat → Prop)
+    (hmono : ∀ s a a' root lid, Q s a root lid → R a a' → (∀ y, root = some y → y < a.size) → Q s a' root lid)
+    (hstate : ∀ s nodes, s < li.nState → GInv g nodes → Ranked nodes →
+      R nodes (buildState li g (ctxFlags li g).1 (ctxFlags li g).2 nodes s).1 ∧
+      ∀ lid ∈ stateArcs g s, Q s (buildState li g (ctxFlags li g).1 (ctxFlags li g).2 nodes s).1
+        (buildState li g (ctxFlags li g).1 (ctxFlags li g).2 nodes s).2 lid) :
+    ∀ n, n ≤ li.nState → ∀ s, s < n → ∀ lid ∈ stateArcs g s,
+      Q s ((List.range n).foldl (buildStep li g) (#[], #[])).1 (((List.range n).foldl (buildStep li g) (#[], #[])).2.getD s none) lid := by
+  intro n
+  induction n with
+  | zero => intro _ s hs; omega
+  | succ n ih =>
+    intro hn s hs lid hlid
+    obtain ⟨hi, hsz, hroots⟩ := buildFold_inv li g hsil n (by omega)
+    have hr := buildFold_ranked li g hsil n (by omega)
+    have ih' := ih (by omega)
+    rw [List.range_succ, List.foldl_append]
+    simp only [List.foldl_cons, List.foldl_nil]
+    generalize (List.range n).foldl (buildStep li g) (#[], #[]) = acc at hi hsz hroots hr ih'
+    obtain ⟨hR, hQ⟩ := hstate n acc.1 (by omega) hi hr
+    show Q s (buildState li g (ctxFlags li g).1 (ctxFlags li g).2 acc.1 n).1
+      ((acc.2.push (buildState li g (ctxFlags li g).1 (ctxFlags li g).2 acc.1 n).2).getD s none) lid
+    by_cases hsn : s < n
+    · have : (acc.2.push (buildState li g (ctxFlags li g).1 (ctxFlags li g).2 acc.1 n).2).getD s none = acc.2.getD s none := by
+        simp [Array.getD, hsz, hsn, Array.getElem_push, Nat.lt_succ_of_lt hsn]
+      rw [this]
+      exact hmono s _ _ _ lid (ih' s hsn lid hlid) hR (fun y hy => (hroots s hsn y hy).1)
+    · have hs' : s = n := by omega
+      subst hs'
+      have : (acc.2.push (buildState li g (ctxFlags li g).1 (ctxFlags li g).2 acc.1 s).2).getD s none =
+          (buildState li g (ctxFlags li g).1 (ctxFlags li g).2 acc.1 s).2 := by
+        simp [Array.getD, hsz, Array.getElem_push]
+      rw [this]
+      exact hQ lid hlid
+
+/-! ### from reachability to the lists `roots` / `children` of the lextree -/
+
+theorem chain_eq (lt : LexTree) : ∀ (k : Nat) (o : Option Nat), lt.chain k o = chainA lt.nodes k o := by
+  intro k
+  induction k with
+  | zero => intro o; cases o <;> rfl
+  | succ k ih =>
+    intro o
+    cases o with
+    | none => rfl
+    | some p => simp only [LexTree.chain, chainA]; rw [ih]; rfl
+
+/-- a chain that ends within the fuel lists everything it reaches -/
+theorem reach_mem_chainA (a : Array PNode) : ∀ (k : Nat) {o : Option Nat} {x : Nat}, Reach a o x →
+    chainEndsA a k o = true → x ∈ chainA a k o := by
+  intro k
+  induction k with
+  | zero =>
+    intro o x h he
+    cases h <;> simp [chainEndsA] at he
+  | succ k ih =>
+    intro o x h he
+    cases h with
+    | here => simp [chainA]
+    | next hn =>
+      simp only [chainEndsA] at he
+      simp only [chainA]
+      exact List.mem_cons_of_mem _ (ih hn he)
+
+/-- **single-phone words and fillers of the flat network are in the lextree the code builds**: for every word arc
+`lid` leaving a state `s` whose word has one phone — a filler: one root/leaf pnode of `root[s]` that carries the arc,
+presents silence, accepts every context and has the context-independent ssid; any other word: for every left context
+`lc` of `s` a root/leaf pnode of `root[s]` that carries the arc, presents the phone, has `lc` in its context set and the
+ssid of `(phone, lc, SIL)` -/
+theorem build_single (li : LexIn) (g : Fsg) (hsil : li.sil < li.nCi) {s : Nat} (hs : s < li.nState) {lid : Nat}
+    (hlid : lid ∈ stateArcs g s) (h1 : (li.word (g.link lid).wid.toNat).pron.length = 1) :
+    if (li.word (g.link lid).wid.toNat).dictFiller then
+      ∃ r ∈ (buildLexTree li g).roots s,
+        Has ((buildLexTree li g).node r) s true lid (li.ciSsid ((li.word (g.link lid).wid.toNat).pron.headD 0))
+          (li.tmat ((li.word (g.link lid).wid.toNat).pron.headD 0))
+          (((g.link lid).logp >>> li.shift) + li.wip + li.pip) li.sil none ∧ AllCtx ((buildLexTree li g).node r)
+    else
+      ∀ lc ∈ ctxList li ((ctxFlags li g).1.getD s 0), ∃ r ∈ (buildLexTree li g).roots s,
+        Has ((buildLexTree li g).node r) s true lid (li.lrdiph ((li.word (g.link lid).wid.toNat).pron.headD 0) lc)
+          (li.tmat ((li.word (g.link lid).wid.toNat).pron.headD 0))
+          (((g.link lid).logp >>> li.shift) + li.wip + li.pip) ((li.word (g.link lid).wid.toNat).pron.headD 0) (some lc) := by
+  have hQ := buildFold_arcs li g hsil Grow (fun _ _ h => h)
+    (fun s a root lid => (li.word (g.link lid).wid.toNat).pron.length = 1 →
+      SingleOK li g s (ctxList li ((ctxFlags li g).1.getD s 0)) a root lid)
+    (fun s a a' root lid hq hR hv h1 => (hq h1).mono hR (rootMono_same hR hv))
+    (fun s nodes hs hi hr => buildState_single (ctxList_ne_nil li g hsil hs) hi hr)
+    li.nState (Nat.le_refl _) s hs lid hlid h1
+  obtain ⟨hi, hsz, hroots⟩ := buildFold_inv li g hsil li.nState (Nat.le_refl _)
+  have hrk := buildFold_ranked li g hsil li.nState (Nat.le_refl _)
+  have hmem : ∀ r, Reach (buildLexTree li g).nodes ((buildLexTree li g).root.getD s none) r → r ∈ (buildLexTree li g).roots s := by
+    intro r hr
+    unfold LexTree.roots
+    rw [chain_eq]
+    refine reach_mem_chainA _ _ hr ?_
+    cases hroot : (buildLexTree li g).root.getD s none with
+    | none => exact chainEndsA_none _ _
+    | some y => exact ranked_ends (g := g) hi hrk (hroots s hs y hroot).1
+  unfold SingleOK at hQ
+  split
+  · rename_i hf
+    simp only [hf, if_true] at hQ
+    obtain ⟨r, _, h2, h3, h4⟩ := hQ
+    exact ⟨r, hmem r h2, h3, h4⟩
+  · rename_i hf
+    simp only [hf] at hQ
+    intro lc hlc
+    obtain ⟨r, _, h2, h3⟩ := hQ lc hlc
+    exact ⟨r, hmem r h2, h3⟩
+
+/-! ### multi-phone words: the exact facts about the shared root sets
+
+The roots of one `(ci, rc)` set share ONE child chain ("all entries of lc_pnodelist point to the same array").  That they
+keep doing so needs exact facts: a root pnode never becomes a child (`NoPar`), so the predecessor the construction
+descends to from position 2 on is never a root of a shared set. -/
+
+/-- `r` is nobody's child -/
+def NoPar (a : Array PNode) (r : Nat) : Prop := ∀ p, ¬ Child a p r
+
+theorem reach_push_rev {g : Fsg} {a : Array PNode} (inv : GInv g a) (n : PNode) : ∀ {o : Option Nat} {x : Nat},
+    Reach (a.push n) o x → (∀ y, o = some y → y < a.size) → Reach a o x := by
+  intro o x h
+  induction h with
+  | here => intro _; exact Reach.here
+  | @next p x hpx ih =>
+    intro ho
+    have hp := ho p rfl
+    refine Reach.next ?_
+    rw [ndOf_push_lt a n hp] at hpx ih
+    exact ih (fun y hy => inv.sibClosed hp hy)
+
+theorem noPar_push {g : Fsg} {a : Array PNode} (inv : GInv g a) {n : PNode} (hn : n.succ = none) {r : Nat}
+    (h : NoPar a r) : NoPar (a.push n) r := by
+  intro p hc
+  unfold Child at hc
+  by_cases hp : p < a.size
+  · rw [ndOf_push_lt a n hp] at hc
+    exact h p (reach_push_rev inv n hc (fun y hy => inv.succClosed hp hy))
+  · by_cases hp2 : p = a.size
+    · subst hp2
+      rw [ndOf_push_eq, hn] at hc; cases hc
+    · rw [ndOf_ge _ (by rw [Array.size_push]; omega)] at hc; cases hc
+
+/-- a freshly pushed pnode is nobody's child -/
+theorem noPar_new {g : Fsg} {a : Array PNode} (inv : GInv g a) {n : PNode} (hn : n.succ = none) : NoPar (a.push n) a.size := by
+  intro p hc
+  unfold Child at hc
+  by_cases hp : p < a.size
+  · rw [ndOf_push_lt a n hp] at hc
+    have := reach_lt inv (reach_push_rev inv n hc (fun y hy => inv.succClosed hp hy)) (fun y hy => inv.succClosed hp hy)
+    omega
+  · by_cases hp2 : p = a.size
+    · subst hp2
+      rw [ndOf_push_eq, hn] at hc; cases hc
+    · rw [ndOf_ge _ (by rw [Array.size_push]; omega)] at hc; cases hc
+
+theorem ndOf_amod_succ (a : Array PNode) (p : Nat) (f : PNode → PNode) (hf : ∀ n, (f n).succ = n.succ) (q : Nat) :
+    (ndOf (amod a p f) q).succ = (ndOf a q).succ := by
+  by_cases hq : q < a.size
+  · exact succ_amod a p f hf hq
+  · rw [ndOf_ge _ (by rw [size_amod]; omega), ndOf_ge _ (by omega)]
+
+theorem succ_addCtxt' (a : Array PNode) (p c q : Nat) : (ndOf (addCtxt a p c) q).succ = (ndOf a q).succ := by
+  unfold addCtxt
+  apply ndOf_amod_succ
+  intro n; rfl
+
+theorem sibling_addCtxt' (a : Array PNode) (p c q : Nat) : (ndOf (addCtxt a p c) q).sibling = (ndOf a q).sibling := by
+  unfold addCtxt
+  apply ndOf_amod_sibling
+  intro n; rfl
+
+theorem noPar_addCtxt {a : Array PNode} (p c : Nat) {r : Nat} (h : NoPar a r) : NoPar (addCtxt a p c) r := by
+  intro q hc
+  unfold Child at hc
+  rw [succ_addCtxt'] at hc
+  exact h q (reach_congr (a := addCtxt a p c) (a' := a) (fun q' => (sibling_addCtxt' a p c q').symm) hc)
+
+theorem sibling_setSucc' (a : Array PNode) (p : Nat) (o : Option Nat) (q : Nat) :
+    (ndOf (setSucc a p o) q).sibling = (ndOf a q).sibling := by
+  unfold setSucc
+  apply ndOf_amod_sibling
+  intro n; rfl
+
+theorem succ_setSucc_ne (a : Array PNode) {p q : Nat} (o : Option Nat) (h : p ≠ q) :
+    (ndOf (setSucc a p o) q).succ = (ndOf a q).succ := by
+  by_cases hq : q < a.size
+  · unfold setSucc
+    rw [ndOf_modify a p _ hq]
+    simp [h]
+  · unfold setSucc
+    rw [ndOf_ge _ (by rw [size_amod]; omega), ndOf_ge _ (by omega)]
+
+theorem noPar_setSucc {a : Array PNode} {t : Nat} {q : Option Nat} {r : Nat} (h : NoPar a r) (hq : ¬ Reach a q r) :
+    NoPar (setSucc a t q) r := by
+  intro p hc
+  unfold Child at hc
+  have hc' := reach_congr (a := setSucc a t q) (a' := a) (fun q' => (sibling_setSucc' a t q q').symm) hc
+  by_cases hpt : t = p
+  · subst hpt
+    by_cases ht : t < a.size
+    · rw [succ_setSucc a ht] at hc'
+      exact hq hc'
+    · rw [ndOf_ge _ (by rw [size_setSucc]; omega)] at hc'; cases hc'
+  · rw [succ_setSucc_ne a q hpt] at hc'
+    exact h p hc'
+
+theorem reach_setSibling_rev {a : Array PNode} {t : Nat} {h : Option Nat} : ∀ {o : Option Nat} {x : Nat},
+    Reach (setSibling a t h) o x → Reach a o x ∨ Reach a h x := by
+  intro o x hr
+  induction hr with
+  | here => exact Or.inl Reach.here
+  | @next p x hpx ih =>
+    by_cases hpt : p = t
+    · subst hpt
+      by_cases hp : p < a.size
+      · rw [sibling_setSibling a hp] at ih
+        rcases ih with h1 | h1 <;> exact Or.inr h1
+      · rw [ndOf_ge _ (by unfold setSibling; rw [size_amod]; omega)] at hpx; cases hpx
+    · have : (ndOf (setSibling a t h) p).sibling = (ndOf a p).sibling := by
+        by_cases hp : p < a.size
+        · unfold setSibling
+          rw [ndOf_modify a t _ hp]
+          simp [Ne.symm hpt]
+        · unfold setSibling
+          rw [ndOf_ge _ (by rw [size_amod]; omega), ndOf_ge _ (by omega)]
+      rw [this] at ih
+      rcases ih with h1 | h1
+      · exact Or.inl (Reach.next h1)
+      · exact Or.inr h1
+
+theorem succ_setSibling' (a : Array PNode) (t : Nat) (h : Option Nat) (q : Nat) :
+    (ndOf (setSibling a t h) q).succ = (ndOf a q).succ := by
+  unfold setSibling
+  apply ndOf_amod_succ
+  intro n; rfl
+
+theorem noPar_setSibling {a : Array PNode} {t : Nat} {h : Option Nat} {r : Nat} (hn : NoPar a r) (hh : ¬ Reach a h r) :
+    NoPar (setSibling a t h) r := by
+  intro p hc
+  unfold Child at hc
+  rw [succ_setSibling'] at hc
+  rcases reach_setSibling_rev hc with h1 | h1
+  · exact hn p h1
+  · exact hh h1
+
+/-- a chain that starts among the new pnodes `≥ g0`, whose siblings are new, stays among them -/
+theorem reach_new {a : Array PNode} {g0 : Nat}
+    (hnew : ∀ x, g0 ≤ x → x < a.size → ∀ y, (ndOf a x).sibling = some y → g0 ≤ y) (hcl : ∀ x, x < a.size → ∀ y, (ndOf a x).sibling = some y → y < a.size) :
+    ∀ {o : Option Nat} {x : Nat}, Reach a o x → (∀ y, o = some y → g0 ≤ y ∧ y < a.size) → g0 ≤ x := by
+  intro o x h
+  induction h with
+  | here => intro ho; exact (ho _ rfl).1
+  | @next p x _ ih =>
+    intro ho
+    obtain ⟨h1, h2⟩ := ho p rfl
+    exact ih (fun y hy => ⟨hnew p h1 h2 y hy, hcl p h2 y hy⟩)
+
+/-- steps that change no `succ` and give no old pnode a new parent (allocation, context bits) -/
+structure Quiet (a a' : Array PNode) : Prop where
+  size : a.size ≤ a'.size
+  noPar : ∀ r, r < a.size → NoPar a r → NoPar a' r
+  succ : ∀ r, r < a.size → (ndOf a' r).succ = (ndOf a r).succ
+  child : ChildMono a a'
+
+theorem Quiet.refl (a : Array PNode) : Quiet a a := ⟨Nat.le_refl _, fun _ _ h => h, fun _ _ => rfl, fun _ _ _ h => h⟩
+
+theorem Quiet.trans {a b c : Array PNode} (h1 : Quiet a b) (h2 : Quiet b c) : Quiet a c :=
+  ⟨Nat.le_trans h1.size h2.size, fun r hr h => h2.noPar r (Nat.lt_of_lt_of_le hr h1.size) (h1.noPar r hr h),
+   fun r hr => by rw [h2.succ r (Nat.lt_of_lt_of_le hr h1.size), h1.succ r hr],
+   fun p hp x hx => h2.child p (Nat.lt_of_lt_of_le hp h1.size) x (h1.child p hp x hx)⟩
+
+theorem quiet_push {g : Fsg} {a : Array PNode} (inv : GInv g a) {n : PNode} (hn : n.succ = none) : Quiet a (a.push n) :=
+  ⟨by rw [Array.size_push]; omega, fun _ _ h => noPar_push inv hn h, fun r hr => by rw [ndOf_push_lt a n hr], childMono_push inv n⟩
+
+theorem quiet_addCtxt (a : Array PNode) (p c : Nat) : Quiet a (addCtxt a p c) :=
+  ⟨by rw [size_addCtxt]; exact Nat.le_refl _, fun _ _ h => noPar_addCtxt p c h, fun r _ => succ_addCtxt' a p c r, childMono_addCtxt a p c⟩
+
+theorem singleStep_quiet {g : Fsg} {li : LexIn} {s lid ci : Nat} {logp : Int} {a1 : Array PNode} (st : LcSt) (lc : Nat)
+    (h : LcInv g s a1 st) : Quiet st.nodes (singleStep li s lid ci logp st lc).nodes := by
+  unfold singleStep
+  simp only
+  split
+  · exact quiet_addCtxt _ _ _
+  · exact quiet_push h.inv rfl
+
+theorem rootStep_quiet {g : Fsg} {li : LexIn} {s ci rc : Nat} {a1 : Array PNode} (st : LcSt) (lc : Nat)
+    (h : LcInv g s a1 st) : Quiet st.nodes (rootStep li s ci rc st lc).nodes := by
+  unfold rootStep
+  simp only
+  split
+  · exact quiet_addCtxt _ _ _
+  · exact (quiet_push h.inv rfl).trans (quiet_addCtxt _ _ _)
+
+theorem leafStep_quiet {g : Fsg} {li : LexIn} {s lid ci lc p : Nat} {logp : Int} {a0 : Array PNode} (st : RcSt) (rc : Nat)
+    (h : RcInv g s a0 st) : Quiet st.nodes (leafStep li s lid ci lc p logp st rc).nodes := by
+  unfold leafStep
+  split
+  · exact quiet_addCtxt _ _ _
+  · exact (quiet_push h.inv rfl).trans (quiet_addCtxt _ _ _)
+
+/-- the exact facts about the root sets `gl` of the state under construction -/
+structure GX (gl : List GEntry) (a : Array PNode) : Prop where
+  lt : ∀ e ∈ gl, ∀ r ∈ e.list, r < a.size
+  noPar : ∀ e ∈ gl, ∀ r ∈ e.list, NoPar a r
+  same : ∀ e ∈ gl, ∀ r ∈ e.list, ∀ r' ∈ e.list, (ndOf a r).succ = (ndOf a r').succ
+  disj : ∀ e ∈ gl, ∀ e' ∈ gl, ∀ x, x ∈ e.list → x ∈ e'.list → e.list = e'.list
+
+theorem GX.quiet {gl : List GEntry} {a a' : Array PNode} (h : GX gl a) (q : Quiet a a') : GX gl a' :=
+  ⟨fun e he r hr => Nat.lt_of_lt_of_le (h.lt e he r hr) q.size,
+   fun e he r hr => q.noPar r (h.lt e he r hr) (h.noPar e he r hr),
+   fun e he r hr r' hr' => by rw [q.succ r (h.lt e he r hr), q.succ r' (h.lt e he r' hr')]; exact h.same e he r hr r' hr',
+   h.disj⟩
+
+/-- a pnode that is somebody's child is not a root of a shared set -/
+theorem GX.child_not_root {gl : List GEntry} {a : Array PNode} (h : GX gl a) {p q : Nat} (hc : Child a p q) :
+    ∀ e ∈ gl, q ∉ e.list := fun e he hq => h.noPar e he q hq p hc
+
+/-- `setSucc` over all roots of a set: every one of them gets the new child in front of the shared chain -/
+theorem setSuccAll_spec (id : Nat) (sv : Option Nat) : ∀ (l : List Nat) (a : Array PNode), l.Nodup → (∀ r ∈ l, r < a.size) →
+    (∀ r ∈ l, (ndOf a r).succ = sv) → (ndOf a id).sibling = sv →
+    ChildMono a (l.foldl (fun a r => setSucc a r (some id)) a) ∧
+    (∀ q, (ndOf (l.foldl (fun a r => setSucc a r (some id)) a) q).sibling = (ndOf a q).sibling) ∧
+    (∀ r ∈ l, (ndOf (l.foldl (fun a r => setSucc a r (some id)) a) r).succ = some id) ∧
+    (∀ r, r ∉ l → (ndOf (l.foldl (fun a r => setSucc a r (some id)) a) r).succ = (ndOf a r).succ) := by
+  intro l
+  induction l with
+  | nil => intro a _ _ _ _; exact ⟨fun _ _ _ h => h, fun _ => rfl, nil_all, fun _ _ => rfl⟩
+  | cons r rest ih =>
+    intro a hnd hlt hsv hid
+    simp only [List.foldl_cons]
+    obtain ⟨hr_notin, hnd'⟩ := List.nodup_cons.1 hnd
+    have hr := hlt r (List.mem_cons_self ..)
+    have hsib := sibling_setSucc' a r (some id)
+    obtain ⟨c1, c2, c3, c4⟩ := ih (setSucc a r (some id)) hnd' (fun x hx => by rw [size_setSucc]; exact hlt x (List.mem_cons_of_mem _ hx))
+      (fun x hx => by
+        have hne : r ≠ x := fun h0 => hr_notin (by rw [h0]; exact hx)
+        rw [succ_setSucc_ne a _ hne]
+        exact hsv x (List.mem_cons_of_mem _ hx)) (by rw [hsib]; exact hid)
+    have hcm : ChildMono a (setSucc a r (some id)) := childMono_setSucc (fun _ x hx => by
+      unfold Child at hx
+      rw [hsv r (List.mem_cons_self ..)] at hx
+      exact Reach.next (by rw [hid]; exact hx))
+    refine ⟨fun p hp x hx => c1 p (by rw [size_setSucc]; exact hp) x (hcm p hp x hx), fun q => by rw [c2, hsib], ?_, ?_⟩
+    · intro x hx
+      rcases List.mem_cons.1 hx with h1 | h1
+      · subst h1
+        rw [c4 x hr_notin, succ_setSucc a hr]
+      · exact c3 x h1
+    · intro x hx
+      have h1 : x ≠ r := fun h0 => hx (h0 ▸ List.mem_cons_self ..)
+      have h2 : x ∉ rest := fun h0 => hx (List.mem_cons_of_mem _ h0)
+      rw [c4 x h2, succ_setSucc_ne a _ (Ne.symm h1)]
+
+theorem noPar_setSuccAll (id : Nat) {x : Nat} : ∀ (l : List Nat) (a : Array PNode), NoPar a x → ¬ Reach a (some id) x →
+    NoPar (l.foldl (fun a r => setSucc a r (some id)) a) x := by
+  intro l
+  induction l with
+  | nil => intro a h _; exact h
+  | cons r rest ih =>
+    intro a h hn
+    simp only [List.foldl_cons]
+    refine ih _ (noPar_setSucc h hn) ?_
+    intro hr
+    exact hn (reach_congr (a := setSucc a r (some id)) (a' := a) (fun q => (sibling_setSucc' a r (some id) q).symm) hr)
+
+theorem reach_lastOf (a : Array PNode) : ∀ (k c : Nat), Reach a (some c) (lastOf a k c) := by
+  intro k
+  induction k with
+  | zero => intro c; exact Reach.here
+  | succ k ih =>
+    intro c
+    simp only [lastOf]
+    split
+    · exact Reach.here
+    · rename_i q hq
+      exact Reach.next (by rw [hq]; exact ih q)
+
+theorem reach_via {a : Array PNode} : ∀ {o : Option Nat} {t x : Nat}, Reach a o t → Reach a (ndOf a t).sibling x → Reach a o x := by
+  intro o t x h
+  induction h with
+  | here => intro hx; exact Reach.next hx
+  | next _ ih => intro hx; exact Reach.next (ih hx)
+
+/-- what hooking the new leaf group `head` (all of it `≥ g0`) under pnodes that share the child pointer `sv` gives -/
+structure Attached (a a' : Array PNode) (l : List Nat) (head : Option Nat) (g0 : Nat) (v : Option Nat) : Prop where
+  grow : Grow a a'
+  child : ChildMono a a'
+  kids : ∀ r ∈ l, ∀ x, Reach a head x → Child a' r x
+  val : ∀ r ∈ l, (ndOf a' r).succ = v
+  other : ∀ q, q ∉ l → (ndOf a' q).succ = (ndOf a q).succ
+  noPar : ∀ x, x < g0 → NoPar a x → NoPar a' x
+
+/-- the common part: everything the group reaches is new -/
+theorem head_new {a : Array PNode} {g0 : Nat} {head : Option Nat} {g : Fsg} (inv : GInv g a)
+    (hnew : ∀ x, g0 ≤ x → x < a.size → ∀ y, (ndOf a x).sibling = some y → g0 ≤ y)
+    (hh : ∀ y, head = some y → g0 ≤ y ∧ y < a.size) {x : Nat} (hx : x < g0) : ¬ Reach a head x := by
+  intro hr
+  have := reach_new hnew (fun x hx y hy => inv.sibClosed hx hy) hr hh
+  omega
+
+theorem attach_none {g : Fsg} {s : Nat} {head : Option Nat} {g0 : Nat} : ∀ (l : List Nat) (a : Array PNode), GInv g a → Ranked a →
+    l.Nodup → (∀ x ∈ l, Valid a s x) → (∀ r ∈ l, (ndOf a r).succ = none) → OValid a s head →
+    (∀ x, g0 ≤ x → x < a.size → ∀ y, (ndOf a x).sibling = some y → g0 ≤ y) → (∀ y, head = some y → g0 ≤ y ∧ y < a.size) →
+    Attached a (attachRoots a head l) l head g0 head := by
+  intro l
+  induction l with
+  | nil =>
+    intro a _ _ _ _ _ _ _ _
+    exact ⟨Grow.refl a, fun _ _ _ h => h, nil_all, nil_all, fun _ _ => rfl, fun _ _ h => h⟩
+  | cons r rest ih =>
+    intro a inv hr hnd hl hnone hh hnew hhd
+    obtain ⟨hr_notin, hnd'⟩ := List.nodup_cons.1 hnd
+    have hrv := hl r (List.mem_cons_self ..)
+    have hrn := hnone r (List.mem_cons_self ..)
+    simp only [attachRoots, hrn]
+    obtain ⟨hi, he⟩ := ginv_setSucc inv hrv hh
+    have hsib := sibling_setSucc' a r head
+    have hreach : ∀ {o : Option Nat} {x : Nat}, Reach a o x → Reach (setSucc a r head) o x :=
+      fun h => reach_congr (fun q => hsib q) h
+    have hA := ih (setSucc a r head) hi (ranked_setSucc hr _ _) hnd' (fun x hx => (hl x (List.mem_cons_of_mem _ hx)).ext he)
+      (fun x hx => by
+        have hne : r ≠ x := fun h0 => hr_notin (by rw [h0]; exact hx)
+        rw [succ_setSucc_ne a _ hne]; exact hnone x (List.mem_cons_of_mem _ hx))
+      (hh.ext he)
+      (fun x hx hlt y hy => by
+        rw [size_setSucc] at hlt
+        rw [hsib] at hy
+        exact hnew x hx hlt y hy)
+      (fun y hy => by rw [size_setSucc]; exact hhd y hy)
+    have hcm : ChildMono a (setSucc a r head) := childMono_setSucc (fun _ x hx => by
+      unfold Child at hx
+      rw [hrn] at hx; cases hx)
+    refine ⟨(grow_setSucc a r head).trans hA.grow,
+      fun p hp x hx => hA.child p (by rw [size_setSucc]; exact hp) x (hcm p hp x hx), ?_, ?_, ?_, ?_⟩
+    · intro x hx y hy
+      rcases List.mem_cons.1 hx with h1 | h1
+      · subst h1
+        -- `x`'s pointer is `head` and is not touched again
+        unfold Child
+        rw [hA.other x hr_notin, succ_setSucc a hrv.1]
+        exact hA.grow.reachO (fun z hz => by rw [size_setSucc]; exact (hhd z hz).2) (hreach hy)
+      · exact hA.kids x h1 y (hreach hy)
+    · intro x hx
+      rcases List.mem_cons.1 hx with h1 | h1
+      · subst h1
+        rw [hA.other x hr_notin, succ_setSucc a hrv.1]
+      · exact hA.val x h1
+    · intro q hq
+      have h1 : q ≠ r := fun h0 => hq (h0 ▸ List.mem_cons_self ..)
+      have h2 : q ∉ rest := fun h0 => hq (List.mem_cons_of_mem _ h0)
+      rw [hA.other q h2, succ_setSucc_ne a _ (Ne.symm h1)]
+    · intro x hx hn
+      exact hA.noPar x hx (noPar_setSucc hn (head_new inv hnew hhd hx))
+
+theorem attach_some {g : Fsg} {s : Nat} {head : Option Nat} {g0 c : Nat} (r : Nat) (rest : List Nat) (a : Array PNode)
+    (inv : GInv g a) (hr : Ranked a) (hl : ∀ x ∈ r :: rest, Valid a s x) (hsome : ∀ x ∈ r :: rest, (ndOf a x).succ = some c)
+    (hnew : ∀ x, g0 ≤ x → x < a.size → ∀ y, (ndOf a x).sibling = some y → g0 ≤ y) (hhd : ∀ y, head = some y → g0 ≤ y ∧ y < a.size) :
+    Attached a (attachRoots a head (r :: rest)) (r :: rest) head g0 (some c) := by
+  have hrs := hsome r (List.mem_cons_self ..)
+  have hrv := hl r (List.mem_cons_self ..)
+  have hc : c < a.size := inv.succClosed hrv.1 hrs
+  simp only [attachRoots, hrs]
+  obtain ⟨hG, hC⟩ := grow_setSibling (h := head) (lastOf_none inv hr hc)
+  have ht : lastOf a a.size c < a.size := reach_lt inv (reach_lastOf a a.size c) (fun y hy => by cases hy; exact hc)
+  refine ⟨hG, hC, ?_, ?_, fun q _ => succ_setSibling' a _ head q, ?_⟩
+  · intro x hx y hy
+    unfold Child
+    rw [succ_setSibling', hsome x hx]
+    refine reach_via (hG.reach c hc _ (reach_lastOf a a.size c)) ?_
+    rw [sibling_setSibling a ht]
+    exact hG.reachO (fun z hz => (hhd z hz).2) hy
+  · intro x hx
+    rw [succ_setSibling', hsome x hx]
+  · intro x hx hn
+    exact noPar_setSibling hn (head_new inv hnew hhd hx)
+
+theorem attachOne_eq (a : Array PNode) (pred : Nat) (head : Option Nat) : attachOne a pred head = attachRoots a head [pred] := by
+  unfold attachOne
+  simp only [attachRoots]
+
+/-- hooking the leaf group under a set of pnodes that share one child pointer -/
+theorem attachRoots_attached {g : Fsg} {s : Nat} {head : Option Nat} {g0 : Nat} (l : List Nat) (a : Array PNode) (inv : GInv g a)
+    (hr : Ranked a) (hnd : l.Nodup) (hl : ∀ x ∈ l, Valid a s x) (sv : Option Nat) (hsv : ∀ r ∈ l, (ndOf a r).succ = sv)
+    (hh : OValid a s head) (hnew : ∀ x, g0 ≤ x → x < a.size → ∀ y, (ndOf a x).sibling = some y → g0 ≤ y)
+    (hhd : ∀ y, head = some y → g0 ≤ y ∧ y < a.size) : ∃ v, Attached a (attachRoots a head l) l head g0 v := by
+  cases sv with
+  | none => exact ⟨head, attach_none l a inv hr hnd hl hsv hh hnew hhd⟩
+  | some c =>
+    cases l with
+    | nil => exact ⟨none, Grow.refl a, fun _ _ _ h => h, nil_all, nil_all, fun _ _ => rfl, fun _ _ h => h⟩
+    | cons r rest => exact ⟨some c, attach_some r rest a inv hr hl hsv hnew hhd⟩
+
+/-! ### the word-final leaves: one per distinct right-context ssid, covering every right context -/
+
+structure RcG (li : LexIn) (s lid ci lc p : Nat) (logp : Int) (done : List Nat) (st : RcSt) : Prop where
+  headReach : ∀ l ∈ st.rcl, Reach st.nodes st.rcl.head? l
+  rmap : ∀ pr ∈ st.rmap, pr.2 ∈ st.rcl ∧ (ndOf st.nodes pr.2).ssid = li.rcSsid ci lc pr.1
+  data : ∀ l ∈ st.rcl, core (ndOf st.nodes l) =
+    (s, true, lid, (ndOf st.nodes l).ssid, li.tmat ci, (logp >>> li.shift) + li.pip, ci)
+  cover : ∀ rc ∈ done, ∃ l ∈ st.rcl, Has (ndOf st.nodes l) s true lid (li.rcSsid ci lc (li.rcMap ci lc rc)) (li.tmat ci)
+    ((logp >>> li.shift) + li.pip) ci (some rc)
+
+theorem leafStep_g {g : Fsg} {li : LexIn} {s lid ci lc p : Nat} {logp : Int} {a0 : Array PNode} {done : List Nat} (st : RcSt) (rc : Nat)
+    (h : RcInv g s a0 st) (hg : RcG li s lid ci lc p logp done st) :
+    RcG li s lid ci lc p logp (done ++ [rc]) (leafStep li s lid ci lc p logp st rc) := by
+  unfold leafStep
+  split
+  · rename_i q hq
+    have hmem := lookup_mem hq
+    obtain ⟨hqr, hqs⟩ := hg.rmap _ hmem
+    have hqlt := (h.rcl q hqr).1
+    have hgr := grow_addCtxt st.nodes q rc
+    have hsib := sibling_addCtxt' st.nodes q rc
+    refine ⟨fun l hl => reach_congr (fun x => hsib x) (hg.headReach l hl), ?_, ?_, ?_⟩
+    · intro pr hpr
+      obtain ⟨h1, h2⟩ := hg.rmap pr hpr
+      exact ⟨h1, by rw [core_ssid (hgr.stable pr.2 (h.rcl pr.2 h1).1)]; exact h2⟩
+    · intro l hl
+      have hst := hgr.stable l (h.rcl l hl).1
+      rw [hst, core_ssid hst]; exact hg.data l hl
+    · intro r hr
+      rcases List.mem_append.1 hr with h1 | h1
+      · obtain ⟨l, hlm, hl⟩ := hg.cover r h1
+        exact ⟨l, hlm, hl.grow hgr (h.rcl l hlm).1⟩
+      · simp only [List.mem_singleton] at h1
+        subst h1
+        refine ⟨q, hqr, ?_, ?_⟩
+        · rw [hgr.stable q hqlt, hg.data q hqr, hqs]
+        · intro x hx; cases hx; exact ctxt_addCtxt st.nodes hqlt r
+  · have hgr0 := grow_push h.inv (leafNode li s lid ci lc p logp st.rcl.head? rc)
+    have hgr1 := grow_addCtxt (st.nodes.push (leafNode li s lid ci lc p logp st.rcl.head? rc)) st.nodes.size rc
+    have hgr := hgr0.trans hgr1
+    have hN : st.nodes.size < (st.nodes.push (leafNode li s lid ci lc p logp st.rcl.head? rc)).size := by
+      rw [Array.size_push]; omega
+    have hnew : core (ndOf (addCtxt (st.nodes.push (leafNode li s lid ci lc p logp st.rcl.head? rc)) st.nodes.size rc) st.nodes.size) =
+        core (leafNode li s lid ci lc p logp st.rcl.head? rc) := by
+      rw [hgr1.stable _ hN, ndOf_push_eq]
+    have hsibN : (ndOf (addCtxt (st.nodes.push (leafNode li s lid ci lc p logp st.rcl.head? rc)) st.nodes.size rc) st.nodes.size).sibling =
+        st.rcl.head? := by
+      rw [sibling_addCtxt', ndOf_push_eq]; rfl
+    have hold : ∀ l ∈ st.rcl, Reach (addCtxt (st.nodes.push (leafNode li s lid ci lc p logp st.rcl.head? rc)) st.nodes.size rc)
+        st.rcl.head? l := fun l hl => hgr.reachO (fun y hy => (h.rcl y (head?_mem hy)).1) (hg.headReach l hl)
+    refine ⟨?_, ?_, ?_, ?_⟩
+    · intro l hl
+      show Reach _ (some st.nodes.size) l
+      rcases List.mem_cons.1 hl with h1 | h1
+      · rw [h1]; exact Reach.here
+      · exact Reach.next (by rw [hsibN]; exact hold l h1)
+    · intro pr hpr
+      rcases List.mem_cons.1 hpr with h1 | h1
+      · rw [h1]
+        exact ⟨List.mem_cons_self .., by rw [core_ssid hnew]; rfl⟩
+      · obtain ⟨h2, h3⟩ := hg.rmap pr h1
+        exact ⟨List.mem_cons_of_mem _ h2, by rw [core_ssid (hgr.stable pr.2 (h.rcl pr.2 h2).1)]; exact h3⟩
+    · intro l hl
+      rcases List.mem_cons.1 hl with h1 | h1
+      · rw [h1, hnew, core_ssid hnew]; rfl
+      · have hst := hgr.stable l (h.rcl l h1).1
+        rw [hst, core_ssid hst]; exact hg.data l h1
+    · intro r hr
+      rcases List.mem_append.1 hr with h1 | h1
+      · obtain ⟨l, hlm, hl⟩ := hg.cover r h1
+        exact ⟨l, List.mem_cons_of_mem _ hlm, hl.grow hgr (h.rcl l hlm).1⟩
+      · simp only [List.mem_singleton] at h1
+        subst h1
+        refine ⟨st.nodes.size, List.mem_cons_self .., ?_, ?_⟩
+        · rw [hnew]; rfl
+        · intro x hx; cases hx; exact ctxt_addCtxt _ hN r
+
+/-! ### the word-initial roots: one per distinct left-context ssid, covering every left context -/
+
+structure RtG (li : LexIn) (s ci rc : Nat) (a0 : Array PNode) (done : List Nat) (st : LcSt) : Prop where
+  lclReach : ∀ r ∈ st.lcl, Reach st.nodes st.root r
+  lmapSub : ∀ x ∈ st.lmap, x ∈ st.lcl
+  data : ∀ r ∈ st.lcl, core (ndOf st.nodes r) = (s, false, 0, (ndOf st.nodes r).ssid, li.tmat ci, li.wip + li.pip, ci)
+  cover : ∀ lc ∈ done, ∃ r ∈ st.lcl, Has (ndOf st.nodes r) s false 0 (li.ldiph ci rc lc) (li.tmat ci) (li.wip + li.pip) ci (some lc)
+  fresh : ∀ r ∈ st.lcl, a0.size ≤ r
+  noPar : ∀ r ∈ st.lcl, NoPar st.nodes r
+  succNone : ∀ r ∈ st.lcl, (ndOf st.nodes r).succ = none
+  rootHead : st.lcl ≠ [] → st.root = st.lcl.head?
+
+theorem rootStep_g {g : Fsg} {li : LexIn} {s ci rc : Nat} {a0 : Array PNode} {done : List Nat} (st : LcSt) (lc : Nat)
+    (h : LcInv g s a0 st) (hg : RtG li s ci rc a0 done st) : RtG li s ci rc a0 (done ++ [lc]) (rootStep li s ci rc st lc) := by
+  unfold rootStep
+  simp only
+  have hrootv : ∀ y, st.root = some y → y < st.nodes.size := fun y hy => (h.root y hy).1
+  split
+  · rename_i p hf
+    obtain ⟨hpm, hq⟩ := find?_spec hf
+    have hpl := hg.lmapSub p hpm
+    have hp := (h.lcl p hpl).1
+    have hgr := grow_addCtxt st.nodes p lc
+    have hssid : (ndOf st.nodes p).ssid = li.ldiph ci rc lc := by simpa using hq
+    refine ⟨fun r hr => hgr.reachO hrootv (hg.lclReach r hr), hg.lmapSub, ?_, ?_, hg.fresh,
+      fun r hr => noPar_addCtxt p lc (hg.noPar r hr), fun r hr => by rw [succ_addCtxt']; exact hg.succNone r hr, hg.rootHead⟩
+    · intro r hr
+      have hst := hgr.stable r (h.lcl r hr).1
+      rw [hst, core_ssid hst]; exact hg.data r hr
+    · intro l hl
+      rcases List.mem_append.1 hl with h1 | h1
+      · obtain ⟨r, hrm, hr⟩ := hg.cover l h1
+        exact ⟨r, hrm, hr.grow hgr (h.lcl r hrm).1⟩
+      · simp only [List.mem_singleton] at h1
+        subst h1
+        refine ⟨p, hpl, ?_, ?_⟩
+        · rw [hgr.stable p hp, hg.data p hpl, hssid]
+        · intro x hx; cases hx; exact ctxt_addCtxt st.nodes hp l
+  · have hgr0 := grow_push h.inv (rootNode li s ci rc st.root lc)
+    have hgr1 := grow_addCtxt (st.nodes.push (rootNode li s ci rc st.root lc)) st.nodes.size lc
+    have hgr := hgr0.trans hgr1
+    have hN : st.nodes.size < (st.nodes.push (rootNode li s ci rc st.root lc)).size := by rw [Array.size_push]; omega
+    have hnew : core (ndOf (addCtxt (st.nodes.push (rootNode li s ci rc st.root lc)) st.nodes.size lc) st.nodes.size) =
+        core (rootNode li s ci rc st.root lc) := by rw [hgr1.stable _ hN, ndOf_push_eq]
+    have hsibN : (ndOf (addCtxt (st.nodes.push (rootNode li s ci rc st.root lc)) st.nodes.size lc) st.nodes.size).sibling = st.root := by
+      rw [sibling_addCtxt', ndOf_push_eq]; rfl
+    have hold : ∀ x, Reach st.nodes st.root x → Reach (addCtxt (st.nodes.push (rootNode li s ci rc st.root lc)) st.nodes.size lc)
+        (some st.nodes.size) x := fun x hx => Reach.next (by rw [hsibN]; exact hgr.reachO hrootv hx)
+    refine ⟨?_, ?_, ?_, ?_, ?_, ?_, ?_, fun _ => rfl⟩
+    · intro r hr
+      rcases List.mem_cons.1 hr with h1 | h1
+      · rw [h1]; exact Reach.here
+      · exact hold r (hg.lclReach r h1)
+    · intro x hx
+      rcases List.mem_append.1 hx with h1 | h1
+      · exact List.mem_cons_of_mem _ (hg.lmapSub x h1)
+      · simp only [List.mem_singleton] at h1; rw [h1]; exact List.mem_cons_self ..
+    · intro r hr
+      rcases List.mem_cons.1 hr with h1 | h1
+      · rw [h1, hnew, core_ssid hnew]; rfl
+      · have hst := hgr.stable r (h.lcl r h1).1
+        rw [hst, core_ssid hst]; exact hg.data r h1
+    · intro l hl
+      rcases List.mem_append.1 hl with h1 | h1
+      · obtain ⟨r, hrm, hr⟩ := hg.cover l h1
+        exact ⟨r, List.mem_cons_of_mem _ hrm, hr.grow hgr (h.lcl r hrm).1⟩
+      · simp only [List.mem_singleton] at h1
+        subst h1
+        refine ⟨st.nodes.size, List.mem_cons_self .., ?_, ?_⟩
+        · rw [hnew]; rfl
+        · intro x hx; cases hx; exact ctxt_addCtxt _ hN l
+    · intro r hr
+      rcases List.mem_cons.1 hr with h1 | h1
+      · rw [h1]; exact h.ext.1
+      · exact hg.fresh r h1
+    · intro r hr
+      rcases List.mem_cons.1 hr with h1 | h1
+      · rw [h1]; exact noPar_addCtxt _ _ (noPar_new h.inv rfl)
+      · exact noPar_addCtxt _ _ (noPar_push h.inv rfl (hg.noPar r h1))
+    · intro r hr
+      rw [succ_addCtxt']
+      rcases List.mem_cons.1 hr with h1 | h1
+      · rw [h1, ndOf_push_eq]; rfl
+      · rw [ndOf_push_lt _ _ (h.lcl r h1).1]; exact hg.succNone r h1
+
+/-! ### the word-internal pnodes -/
+
+theorem fold_range' {σ : Type} (I : Nat → σ → Prop) (f : σ → Nat → σ) (M : Nat) (st0 : σ) (h0 : I 0 st0)
+    (hstep : ∀ m st, m < M → I m st → I (m + 1) (f st (1 + m))) : I M ((List.range' 1 M).foldl f st0) := by
+  induction M with
+  | zero => simpa using h0
+  | succ M ih =>
+    rw [List.range'_concat, List.foldl_append]
+    simp only [List.foldl_cons, List.foldl_nil, Nat.one_mul]
+    exact hstep M _ (by omega) (ih (fun m st hm h => hstep m st (by omega) h))
+
+theorem drop1_range (n : Nat) : (List.range n).drop 1 = List.range' 1 (n - 1) := by
+  rw [List.range_eq_range', List.drop_range']
+
+theorem findChild_spec (a : Array PNode) (ssid : Nat) : ∀ (fuel : Nat) (start : Option Nat) (q : Nat),
+    findChild a ssid fuel start = some q → Reach a start q ∧ (ndOf a q).ssid = ssid ∧ (ndOf a q).leaf = false := by
+  intro fuel
+  induction fuel with
+  | zero => intro start q h; simp [findChild] at h
+  | succ fuel ih =>
+    intro start q h
+    cases start with
+    | none => simp [findChild] at h
+    | some p =>
+      simp only [findChild] at h
+      split at h
+      · rename_i hc
+        cases h
+        simp only [Bool.and_eq_true, beq_iff_eq, Bool.not_eq_true'] at hc
+        exact ⟨Reach.here, hc.1, hc.2⟩
+      · obtain ⟨h1, h2⟩ := ih _ q h
+        exact ⟨Reach.next h1, h2⟩
+
+/-- the transition matrix of a word-internal phone is a function of its senone-sequence id (pnodes are shared between
+words by ssid alone) -/
+def SsidTmat (li : LexIn) (tm : Nat → Nat) : Prop :=
+  ∀ wid p, li.tmat ((li.word wid).pron.getD p 0) = tm (li.internal (li.word wid).dictWid p)
+
+/-- every non-leaf pnode of state `s` is a root of one of the sets `gl` / of `extra`, or a word-internal pnode -/
+def IntKind (li : LexIn) (tm : Nat → Nat) (s : Nat) (gl : List GEntry) (extra : List Nat) (a : Array PNode) : Prop :=
+  ∀ x, x < a.size → (ndOf a x).owner = s → (ndOf a x).leaf = false →
+    (∃ e ∈ gl, x ∈ e.list) ∨ x ∈ extra ∨
+    ((ndOf a x).logs2prob = li.pip ∧ (ndOf a x).link = 0 ∧ (ndOf a x).tmatid = tm (ndOf a x).ssid)
+
+theorem core_fields {n n' : PNode} (h : core n' = core n) :
+    n'.owner = n.owner ∧ n'.leaf = n.leaf ∧ n'.link = n.link ∧ n'.ssid = n.ssid ∧ n'.tmatid = n.tmatid ∧
+    n'.logs2prob = n.logs2prob ∧ n'.ciExt = n.ciExt := by
+  unfold core at h
+  simp only [Prod.mk.injEq] at h
+  exact h
+
+/-- steps that keep the size and the key fields keep the kinds -/
+theorem IntKind.same {li : LexIn} {tm : Nat → Nat} {s : Nat} {gl : List GEntry} {extra : List Nat} {a a' : Array PNode}
+    (h : IntKind li tm s gl extra a) (hg : Grow a a') (hs : a'.size = a.size) : IntKind li tm s gl extra a' := by
+  intro x hx ho hl
+  rw [hs] at hx
+  obtain ⟨f1, f2, f3, f4, f5, f6, _⟩ := core_fields (hg.stable x hx)
+  rw [f1] at ho; rw [f2] at hl
+  rcases h x hx ho hl with h1 | h1 | h1
+  · exact Or.inl h1
+  · exact Or.inr (Or.inl h1)
+  · exact Or.inr (Or.inr (by rw [f6, f3, f5, f4]; exact h1))
+
+theorem IntKind.push {g : Fsg} {li : LexIn} {tm : Nat → Nat} {s : Nat} {gl : List GEntry} {extra extra' : List Nat} {a : Array PNode}
+    (h : IntKind li tm s gl extra a) (_inv : GInv g a) (n : PNode) (hsub : ∀ x ∈ extra, x ∈ extra')
+    (hn : n.leaf = false → n.owner = s → a.size ∈ extra' ∨ (n.logs2prob = li.pip ∧ n.link = 0 ∧ n.tmatid = tm n.ssid)) :
+    IntKind li tm s gl extra' (a.push n) := by
+  intro x hx ho hl
+  rw [Array.size_push] at hx
+  by_cases hlt : x < a.size
+  · rw [ndOf_push_lt a n hlt] at ho hl ⊢
+    rcases h x hlt ho hl with h1 | h1 | h1
+    · exact Or.inl h1
+    · exact Or.inr (Or.inl (hsub x h1))
+    · exact Or.inr (Or.inr h1)
+  · have : x = a.size := by omega
+    subst this
+    rw [ndOf_push_eq] at ho hl ⊢
+    rcases hn hl ho with h1 | h1
+    · exact Or.inr (Or.inl h1)
+    · exact Or.inr (Or.inr h1)
+
+theorem IntKind.addCtxt {li : LexIn} {tm : Nat → Nat} {s : Nat} {gl : List GEntry} {extra : List Nat} {a : Array PNode}
+    (h : IntKind li tm s gl extra a) (p c : Nat) : IntKind li tm s gl extra (addCtxt a p c) :=
+  h.same (grow_addCtxt a p c) (size_addCtxt a p c)
+
+theorem IntKind.setSucc {li : LexIn} {tm : Nat → Nat} {s : Nat} {gl : List GEntry} {extra : List Nat} {a : Array PNode}
+    (h : IntKind li tm s gl extra a) (p : Nat) (q : Option Nat) : IntKind li tm s gl extra (setSucc a p q) :=
+  h.same (grow_setSucc a p q) (size_setSucc a p q)
+
+theorem singleStep_kind {g : Fsg} {li : LexIn} {tm : Nat → Nat} {gl : List GEntry} {s lid ci : Nat} {logp : Int} {a1 : Array PNode}
+    (st : LcSt) (lc : Nat) (h : LcInv g s a1 st) (hk : IntKind li tm s gl [] st.nodes) :
+    IntKind li tm s gl [] (singleStep li s lid ci logp st lc).nodes := by
+  unfold singleStep
+  simp only
+  split
+  · exact hk.addCtxt _ _
+  · exact hk.push h.inv _ (fun _ hx => hx) (fun hl => by cases hl)
+
+theorem rootStep_kind {g : Fsg} {li : LexIn} {tm : Nat → Nat} {gl : List GEntry} {s ci rc : Nat} {a1 : Array PNode}
+    (st : LcSt) (lc : Nat) (h : LcInv g s a1 st) (hk : IntKind li tm s gl st.lcl st.nodes) :
+    IntKind li tm s gl (rootStep li s ci rc st lc).lcl (rootStep li s ci rc st lc).nodes := by
+  unfold rootStep
+  simp only
+  split
+  · exact hk.addCtxt _ _
+  · exact (hk.push h.inv _ (fun x hx => List.mem_cons_of_mem _ hx) (fun _ _ => Or.inl (List.mem_cons_self ..))).addCtxt _ _
+
+theorem leafStep_kind {g : Fsg} {li : LexIn} {tm : Nat → Nat} {gl : List GEntry} {s lid ci lc p : Nat} {logp : Int} {a0 : Array PNode}
+    (st : RcSt) (rc : Nat) (h : RcInv g s a0 st) (hk : IntKind li tm s gl [] st.nodes) :
+    IntKind li tm s gl [] (leafStep li s lid ci lc p logp st rc).nodes := by
+  unfold leafStep
+  split
+  · exact hk.addCtxt _ _
+  · exact (hk.push h.inv _ (fun _ hx => hx) (fun hl => by cases hl)).addCtxt _ _
+
+theorem IntKind.setSuccAll {li : LexIn} {tm : Nat → Nat} {s : Nat} {gl : List GEntry} {extra : List Nat} (id : Nat) :
+    ∀ (l : List Nat) (a : Array PNode), IntKind li tm s gl extra a → IntKind li tm s gl extra (l.foldl (fun a r => SSVerif.Search.setSucc a r (some id)) a) := by
+  intro l
+  induction l with
+  | nil => intro a h; exact h
+  | cons r rest ih => intro a h; exact ih _ (h.setSucc r _)
+
+/-- the word-internal pnodes chosen for the positions `1..k` of word `w`: data, and the links from the roots down -/
+structure PathK (li : LexIn) (w : WordInfo) (lcl : List Nat) (a : Array PNode) (qf : Nat → Nat) (k : Nat) : Prop where
+  data : ∀ j, 1 ≤ j → j ≤ k → qf j < a.size ∧ (ndOf a (qf j)).leaf = false ∧ (ndOf a (qf j)).ssid = li.internal w.dictWid j ∧
+    (ndOf a (qf j)).tmatid = li.tmat (w.pron.getD j 0) ∧ (ndOf a (qf j)).logs2prob = li.pip
+  first : 1 ≤ k → ∀ r ∈ lcl, Child a r (qf 1)
+  link : ∀ j, 1 ≤ j → j < k → Child a (qf j) (qf (j + 1))
+
+theorem PathK.mono {li : LexIn} {w : WordInfo} {lcl : List Nat} {a a' : Array PNode} {qf : Nat → Nat} {k : Nat}
+    (h : PathK li w lcl a qf k) (hg : Grow a a') (hc : ChildMono a a') (hl : ∀ r ∈ lcl, r < a.size) : PathK li w lcl a' qf k := by
+  refine ⟨?_, fun hk r hr => hc r (hl r hr) _ (h.first hk r hr), fun j h1 h2 => hc _ (h.data j h1 (by omega)).1 _ (h.link j h1 h2)⟩
+  intro j h1 h2
+  obtain ⟨d0, d1, d2, d3, d4⟩ := h.data j h1 h2
+  obtain ⟨_, f2, _, f4, f5, f6, _⟩ := core_fields (hg.stable (qf j) d0)
+  exact ⟨Nat.lt_of_lt_of_le d0 hg.size, by rw [f2]; exact d1, by rw [f4]; exact d2, by rw [f5]; exact d3, by rw [f6]; exact d4⟩
+
+/-- the word-final leaves of arc `lid` hang under the last internal pnode (or under every root, for a two-phone word), one
+for every right context -/
+def LeafK (li : LexIn) (s lid : Nat) (w : WordInfo) (logp : Int) (rclist lcl : List Nat) (a : Array PNode) (qf : Nat → Nat) (k : Nat) : Prop :=
+  ∀ rc ∈ rclist, ∃ l, l < a.size ∧
+    Has (ndOf a l) s true lid (li.rcSsid (w.pron.getD (k + 1) 0) (w.pron.getD k 0) (li.rcMap (w.pron.getD (k + 1) 0) (w.pron.getD k 0) rc))
+      (li.tmat (w.pron.getD (k + 1) 0)) ((logp >>> li.shift) + li.pip) (w.pron.getD (k + 1) 0) (some rc) ∧
+    (k = 0 → ∀ r ∈ lcl, Child a r l) ∧ (1 ≤ k → Child a (qf k) l)
+
+theorem LeafK.mono {li : LexIn} {s lid : Nat} {w : WordInfo} {logp : Int} {rclist lcl : List Nat} {a a' : Array PNode} {qf : Nat → Nat} {k : Nat}
+    (h : LeafK li s lid w logp rclist lcl a qf k) (hg : Grow a a') (hc : ChildMono a a') (hl : ∀ r ∈ lcl, r < a.size)
+    (hq : 1 ≤ k → qf k < a.size) : LeafK li s lid w logp rclist lcl a' qf k := by
+  intro rc hrc
+  obtain ⟨l, h1, h2, h3, h4⟩ := h rc hrc
+  exact ⟨l, Nat.lt_of_lt_of_le h1 hg.size, h2.grow hg h1, fun hk r hr => hc r (hl r hr) l (h3 hk r hr), fun hk => hc _ (hq hk) l (h4 hk)⟩
+
+/-- the fixed data of the loop over the phones `p ≥ 1` of one multi-phone word -/
+structure PhCtx (g : Fsg) (li : LexIn) (tm : Nat → Nat) (s lid : Nat) (w : WordInfo) (lcl : List Nat) (gl : List GEntry)
+    (a1 : Array PNode) : Prop where
+  hl : lid < g.links.size ∧ (g.link lid).src = s ∧ 0 ≤ (g.link lid).wid
+  hw : w = li.word (g.link lid).wid.toNat
+  hlcl : ∀ x ∈ lcl, Valid a1 s x
+  hnd : lcl.Nodup
+  hcur : ∃ e ∈ gl, e.list = lcl
+  htm : SsidTmat li tm
+  n2 : 2 ≤ w.pron.length
+
+/-- what holds after the positions `1..m` -/
+structure PhP (g : Fsg) (li : LexIn) (tm : Nat → Nat) (s lid : Nat) (w : WordInfo) (logp : Int) (rclist lcl : List Nat) (gl : List GEntry)
+    (a1 : Array PNode) (m : Nat) (st : PhSt) : Prop where
+  gx : GX gl st.nodes
+  child : ChildMono a1 st.nodes
+  kind : IntKind li tm s gl [] st.nodes
+  predFirst : m = 0 → st.pred ∈ lcl
+  predLater : 1 ≤ m → m < w.pron.length - 1 → ∀ e ∈ gl, st.pred ∉ e.list
+  path : ∃ qf, PathK li w lcl st.nodes qf (min m (w.pron.length - 2)) ∧
+    (1 ≤ min m (w.pron.length - 2) → st.pred = qf (min m (w.pron.length - 2))) ∧
+    (m = w.pron.length - 1 → LeafK li s lid w logp rclist lcl st.nodes qf (w.pron.length - 2))
+
+/-! the five shapes of one step -/
+
+theorem phoneStep_found {li : LexIn} {s lid : Nat} {w : WordInfo} {logp : Int} {rclist lcl : List Nat} {st : PhSt} {p q : Nat}
+    (hi : p + 1 ≠ w.pron.length)
+    (hf : findChild st.nodes (li.internal w.dictWid p) st.nodes.size (ndOf st.nodes st.pred).succ = some q) :
+    phoneStep li s lid w logp rclist lcl st p = { st with pred := q } := by
+  unfold phoneStep
+  simp only [hi, ne_eq, not_false_eq_true, if_true, hf]
+
+theorem phoneStep_allocF {li : LexIn} {s lid : Nat} {w : WordInfo} {logp : Int} {rclist lcl : List Nat} {st : PhSt} {p : Nat}
+    (hi : p + 1 ≠ w.pron.length)
+    (hf : findChild st.nodes (li.internal w.dictWid p) st.nodes.size (ndOf st.nodes st.pred).succ = none) (hp : p = 1) :
+    phoneStep li s lid w logp rclist lcl st p =
+      { nodes := lcl.foldl (fun a r => setSucc a r (some st.nodes.size))
+          (st.nodes.push (internalNode li s (w.pron.getD p 0) p w.dictWid (ndOf st.nodes st.pred).succ)),
+        pred := st.nodes.size } := by
+  subst hp
+  unfold phoneStep
+  simp only [hi, ne_eq, not_false_eq_true, if_true, hf]
+
+theorem phoneStep_allocL {li : LexIn} {s lid : Nat} {w : WordInfo} {logp : Int} {rclist lcl : List Nat} {st : PhSt} {p : Nat}
+    (hi : p + 1 ≠ w.pron.length)
+    (hf : findChild st.nodes (li.internal w.dictWid p) st.nodes.size (ndOf st.nodes st.pred).succ = none) (hp : p ≠ 1) :
+    phoneStep li s lid w logp rclist lcl st p =
+      { nodes := setSucc (st.nodes.push (internalNode li s (w.pron.getD p 0) p w.dictWid (ndOf st.nodes st.pred).succ))
+          st.pred (some st.nodes.size),
+        pred := st.nodes.size } := by
+  unfold phoneStep
+  simp only [hi, ne_eq, not_false_eq_true, if_true, hf, hp, if_false]
+
+theorem phoneStep_leafF {li : LexIn} {s lid : Nat} {w : WordInfo} {logp : Int} {rclist lcl : List Nat} {st : PhSt} {p : Nat}
+    (hi : p + 1 = w.pron.length) (hp : p = 1) :
+    phoneStep li s lid w logp rclist lcl st p =
+      { nodes := attachRoots (rclist.foldl (leafStep li s lid (w.pron.getD p 0) (w.pron.getD (p - 1) 0) p logp) { nodes := st.nodes }).nodes
+          (rclist.foldl (leafStep li s lid (w.pron.getD p 0) (w.pron.getD (p - 1) 0) p logp) { nodes := st.nodes }).rcl.head? lcl,
+        pred := st.pred } := by
+  subst hp
+  unfold phoneStep
+  simp only [hi, ne_eq, not_true_eq_false, if_false, if_true]
+
+theorem phoneStep_leafL {li : LexIn} {s lid : Nat} {w : WordInfo} {logp : Int} {rclist lcl : List Nat} {st : PhSt} {p : Nat}
+    (hi : p + 1 = w.pron.length) (hp : p ≠ 1) :
+    phoneStep li s lid w logp rclist lcl st p =
+      { nodes := attachOne (rclist.foldl (leafStep li s lid (w.pron.getD p 0) (w.pron.getD (p - 1) 0) p logp) { nodes := st.nodes }).nodes
+          st.pred (rclist.foldl (leafStep li s lid (w.pron.getD p 0) (w.pron.getD (p - 1) 0) p logp) { nodes := st.nodes }).rcl.head?,
+        pred := st.pred } := by
+  unfold phoneStep
+  simp only [hi, ne_eq, not_true_eq_false, if_false, hp]
+
+theorem size_attachRoots (head : Option Nat) : ∀ (l : List Nat) (a : Array PNode), (attachRoots a head l).size = a.size := by
+  intro l
+  induction l with
+  | nil => intro a; rfl
+  | cons r rest ih =>
+    intro a
+    simp only [attachRoots]
+    split
+    · rw [ih, size_setSucc]
+    · unfold setSibling; rw [size_amod]
+
+/-- everything the loop over the right contexts establishes -/
+theorem leafFold_all {g : Fsg} {li : LexIn} {tm : Nat → Nat} {gl : List GEntry} {s lid ci lc p : Nat} {logp : Int} (a : Array PNode)
+    (hl : lid < g.links.size ∧ (g.link lid).src = s ∧ 0 ≤ (g.link lid).wid) (inv : GInv g a) (hr : Ranked a)
+    (hk : IntKind li tm s gl [] a) (rclist : List Nat) :
+    (RcInv g s a (rclist.foldl (leafStep li s lid ci lc p logp) { nodes := a }) ∧
+      RcR a (rclist.foldl (leafStep li s lid ci lc p logp) { nodes := a })) ∧
+    Quiet a (rclist.foldl (leafStep li s lid ci lc p logp) { nodes := a }).nodes ∧
+    Grow a (rclist.foldl (leafStep li s lid ci lc p logp) { nodes := a }).nodes ∧
+    IntKind li tm s gl [] (rclist.foldl (leafStep li s lid ci lc p logp) { nodes := a }).nodes ∧
+    RcG li s lid ci lc p logp rclist (rclist.foldl (leafStep li s lid ci lc p logp) { nodes := a }) := by
+  have h := foldl_inv_prefix
+    (fun done st' => (RcInv g s a st' ∧ RcR a st') ∧ Quiet a st'.nodes ∧ Grow a st'.nodes ∧ IntKind li tm s gl [] st'.nodes ∧
+      RcG li s lid ci lc p logp done st')
+    (leafStep li s lid ci lc p logp) rclist [] { nodes := a }
+    ⟨⟨⟨inv, Ext.refl _, nil_all, nil_all⟩,
+      ⟨hr, Nat.le_refl _, fun _ _ => rfl, fun _ _ => rfl, fun x h1 h2 => absurd h2 (Nat.not_lt.2 h1), nil_all⟩⟩,
+     Quiet.refl _, Grow.refl _, hk, ⟨nil_all, nil_all, nil_all, nil_all⟩⟩
+    (fun d st' rc _ h' => ⟨⟨leafStep_inv hl st' rc h'.1.1, leafStep_ranked st' rc h'.1.1 h'.1.2⟩,
+      h'.2.1.trans (leafStep_quiet st' rc h'.1.1), h'.2.2.1.trans (leafStep_grow0 st' rc h'.1.1),
+      leafStep_kind st' rc h'.1.1 h'.2.2.2.1, leafStep_g st' rc h'.1.1 h'.2.2.2.2⟩)
+  simpa using h
+
+section Step
+variable {g : Fsg} {li : LexIn} {tm : Nat → Nat} {s lid : Nat} {w : WordInfo} {logp : Int} {rclist lcl : List Nat} {gl : List GEntry}
+  {a1 : Array PNode} {m : Nat} {st : PhSt}
+
+/-- all roots of the current set have the predecessor's child pointer -/
+theorem PhCtx.sameSucc (ctx : PhCtx g li tm s lid w lcl gl a1) {a : Array PNode} (gx : GX gl a) {r r' : Nat} (hr : r ∈ lcl) (hr' : r' ∈ lcl) :
+    (ndOf a r).succ = (ndOf a r').succ := by
+  obtain ⟨e, he, hel⟩ := ctx.hcur
+  exact gx.same e he r (by rw [hel]; exact hr) r' (by rw [hel]; exact hr')
+
+theorem PhCtx.lcl_lt (ctx : PhCtx g li tm s lid w lcl gl a1) {a : Array PNode} (gx : GX gl a) {r : Nat} (hr : r ∈ lcl) : r < a.size := by
+  obtain ⟨e, he, hel⟩ := ctx.hcur
+  exact gx.lt e he r (by rw [hel]; exact hr)
+
+/-- a root set of the state either is the current one or is disjoint from it -/
+theorem PhCtx.cur_or_disj (ctx : PhCtx g li tm s lid w lcl gl a1) {a : Array PNode} (gx : GX gl a) {e : GEntry} (he : e ∈ gl) :
+    (∀ x, x ∈ e.list ↔ x ∈ lcl) ∨ (∀ x ∈ e.list, x ∉ lcl) := by
+  obtain ⟨ec, hec, hel⟩ := ctx.hcur
+  by_cases h : ∃ x ∈ e.list, x ∈ lcl
+  · obtain ⟨x, hx1, hx2⟩ := h
+    have := gx.disj e he ec hec x hx1 (by rw [hel]; exact hx2)
+    exact Or.inl (fun y => by rw [this, hel])
+  · exact Or.inr (fun x hx hx2 => h ⟨x, hx, hx2⟩)
+
+theorem step_found (ctx : PhCtx g li tm s lid w lcl gl a1) (hb : PhInv g s a1 st)
+    (hp : PhP g li tm s lid w logp rclist lcl gl a1 m st) (hm : m < w.pron.length - 1) (hi : 1 + m + 1 ≠ w.pron.length) {q : Nat}
+    (hf : findChild st.nodes (li.internal w.dictWid (1 + m)) st.nodes.size (ndOf st.nodes st.pred).succ = some q) :
+    PhP g li tm s lid w logp rclist lcl gl a1 (m + 1) { st with pred := q } := by
+  obtain ⟨hreach, hssid, hleaf⟩ := findChild_spec _ _ _ _ _ hf
+  have hchild : Child st.nodes st.pred q := hreach
+  have hsucc : OValid st.nodes s (ndOf st.nodes st.pred).succ := by
+    have := (hb.inv st.pred hb.pred.1).1
+    rw [hb.pred.2] at this; exact this
+  have hqv : Valid st.nodes s q := findChild_valid hb.inv _ _ _ q hsucc hf
+  have hnotroot := hp.gx.child_not_root hchild
+  have hmin : min m (w.pron.length - 2) = m := by omega
+  have hmin' : min (m + 1) (w.pron.length - 2) = m + 1 := by omega
+  obtain ⟨qf, hpath, hpred, _⟩ := hp.path
+  rw [hmin] at hpath hpred
+  -- the found pnode is a word-internal pnode
+  have hkind : (ndOf st.nodes q).logs2prob = li.pip ∧ (ndOf st.nodes q).link = 0 ∧ (ndOf st.nodes q).tmatid = tm (ndOf st.nodes q).ssid := by
+    rcases hp.kind q hqv.1 hqv.2 hleaf with ⟨e, he, hq⟩ | h1 | h1
+    · exact absurd hq (hnotroot e he)
+    · cases h1
+    · exact h1
+  have htmat : (ndOf st.nodes q).tmatid = li.tmat (w.pron.getD (1 + m) 0) := by
+    rw [hkind.2.2, hssid, ctx.hw]; exact (ctx.htm _ _).symm
+  refine ⟨hp.gx, hp.child, hp.kind, fun h => by omega, fun _ _ => hnotroot, ?_⟩
+  refine ⟨fun j => if j = m + 1 then q else qf j, ?_, ?_, fun h => by omega⟩
+  · rw [hmin']
+    refine ⟨?_, ?_, ?_⟩
+    · intro j h1 h2
+      by_cases hj : j = m + 1
+      · simp only [hj, if_true]
+        exact ⟨hqv.1, hleaf, by rw [hssid, Nat.add_comm], by rw [htmat, Nat.add_comm], hkind.1⟩
+      · simp only [hj, if_false]
+        exact hpath.data j h1 (by omega)
+    · intro _ r hr
+      by_cases hm0 : m = 0
+      · subst hm0
+        simp only [Nat.zero_add, if_true]
+        unfold Child
+        rw [ctx.sameSucc hp.gx hr (hp.predFirst rfl)]
+        exact hchild
+      · have : ¬ (1 = m + 1) := by omega
+        simp only [this, if_false]
+        exact hpath.first (by omega) r hr
+    · intro j h1 h2
+      have hj : ¬ (j = m + 1) := by omega
+      simp only [hj, if_false]
+      by_cases hjm : j = m
+      · subst hjm
+        simp only [if_true]
+        rw [← hpred (by omega)]
+        exact hchild
+      · have : ¬ (j + 1 = m + 1) := by omega
+        simp only [this, if_false]
+        exact hpath.link j h1 (by omega)
+  · intro _
+    rw [hmin']
+    simp
+
+/-- the new word-internal pnode: fields, and that no root of a shared set is reached from it -/
+theorem new_internal (ctx : PhCtx g li tm s lid w lcl gl a1) (hb : PhInv g s a1 st) (hp : PhP g li tm s lid w logp rclist lcl gl a1 m st)
+    (p : Nat) :
+    Quiet st.nodes (st.nodes.push (internalNode li s (w.pron.getD p 0) p w.dictWid (ndOf st.nodes st.pred).succ)) ∧
+    IntKind li tm s gl [] (st.nodes.push (internalNode li s (w.pron.getD p 0) p w.dictWid (ndOf st.nodes st.pred).succ)) ∧
+    (∀ e ∈ gl, ∀ r ∈ e.list, ¬ Reach (st.nodes.push (internalNode li s (w.pron.getD p 0) p w.dictWid (ndOf st.nodes st.pred).succ))
+      (some st.nodes.size) r) := by
+  refine ⟨quiet_push hb.inv rfl, hp.kind.push hb.inv _ (fun _ hx => hx) (fun _ _ => Or.inr ⟨rfl, rfl, ?_⟩), ?_⟩
+  · show li.tmat (w.pron.getD p 0) = tm (li.internal w.dictWid p)
+    rw [ctx.hw]; exact ctx.htm _ _
+  · intro e he r hr hreach
+    have hrlt := hp.gx.lt e he r hr
+    cases hreach with
+    | here => omega
+    | next hn =>
+      rw [ndOf_push_eq] at hn
+      have hsuccv : ∀ y, (ndOf st.nodes st.pred).succ = some y → y < st.nodes.size := fun y hy => hb.inv.succClosed hb.pred.1 hy
+      exact hp.gx.noPar e he r hr st.pred (reach_push_rev hb.inv _ hn hsuccv)
+
+theorem internal_fields (li : LexIn) (s ci p dw : Nat) (head : Option Nat) :
+    (internalNode li s ci p dw head).leaf = false ∧ (internalNode li s ci p dw head).ssid = li.internal dw p ∧
+    (internalNode li s ci p dw head).tmatid = li.tmat ci ∧ (internalNode li s ci p dw head).logs2prob = li.pip :=
+  ⟨rfl, rfl, rfl, rfl⟩
+
+/-- data of a pnode from the data of the pnode it was pushed as, through a growth -/
+theorem data_of_grow {a a' : Array PNode} (hg : Grow a a') {x : Nat} (hx : x < a.size) {lf : Bool} {ss tmv : Nat} {lp : Int}
+    (h : (ndOf a x).leaf = lf ∧ (ndOf a x).ssid = ss ∧ (ndOf a x).tmatid = tmv ∧ (ndOf a x).logs2prob = lp) :
+    x < a'.size ∧ (ndOf a' x).leaf = lf ∧ (ndOf a' x).ssid = ss ∧ (ndOf a' x).tmatid = tmv ∧ (ndOf a' x).logs2prob = lp := by
+  obtain ⟨_, f2, _, f4, f5, f6, _⟩ := core_fields (hg.stable x hx)
+  exact ⟨Nat.lt_of_lt_of_le hx hg.size, by rw [f2]; exact h.1, by rw [f4]; exact h.2.1, by rw [f5]; exact h.2.2.1, by rw [f6]; exact h.2.2.2⟩
+
+theorem step_allocF (ctx : PhCtx g li tm s lid w lcl gl a1) (hb : PhInv g s a1 st)
+    (hp : PhP g li tm s lid w logp rclist lcl gl a1 0 st) (hi : 1 + 0 + 1 ≠ w.pron.length) (hm : 0 < w.pron.length - 1) :
+    PhP g li tm s lid w logp rclist lcl gl a1 1
+      { nodes := lcl.foldl (fun a r => setSucc a r (some st.nodes.size))
+          (st.nodes.push (internalNode li s (w.pron.getD 1 0) 1 w.dictWid (ndOf st.nodes st.pred).succ)),
+        pred := st.nodes.size } := by
+  obtain ⟨hq, hk, hnr⟩ := new_internal ctx hb hp 1
+  have hpredl := hp.predFirst rfl
+  have hsz : (st.nodes.push (internalNode li s (w.pron.getD 1 0) 1 w.dictWid (ndOf st.nodes st.pred).succ)).size = st.nodes.size + 1 :=
+    Array.size_push ..
+  have gx1 := hp.gx.quiet hq
+  have hspec := setSuccAll_spec st.nodes.size (ndOf st.nodes st.pred).succ lcl
+    (st.nodes.push (internalNode li s (w.pron.getD 1 0) 1 w.dictWid (ndOf st.nodes st.pred).succ)) ctx.hnd
+    (fun r hr => ctx.lcl_lt gx1 hr)
+    (fun r hr => by rw [hq.succ r (ctx.lcl_lt hp.gx hr)]; exact ctx.sameSucc hp.gx hr hpredl)
+    (by rw [ndOf_push_eq]; rfl)
+  obtain ⟨cm, _, succAll, succOther⟩ := hspec
+  have hG := grow_setSuccAll st.nodes.size lcl (st.nodes.push (internalNode li s (w.pron.getD 1 0) 1 w.dictWid (ndOf st.nodes st.pred).succ))
+  have hGall : Grow st.nodes (lcl.foldl (fun a r => setSucc a r (some st.nodes.size))
+      (st.nodes.push (internalNode li s (w.pron.getD 1 0) 1 w.dictWid (ndOf st.nodes st.pred).succ))) := (grow_push hb.inv _).trans hG
+  have hCall : ChildMono st.nodes (lcl.foldl (fun a r => setSucc a r (some st.nodes.size))
+      (st.nodes.push (internalNode li s (w.pron.getD 1 0) 1 w.dictWid (ndOf st.nodes st.pred).succ))) :=
+    fun p hp' x hx => cm p (by rw [hsz]; omega) x (hq.child p hp' x hx)
+  have hmin : min 1 (w.pron.length - 2) = 1 := by omega
+  refine ⟨⟨?_, ?_, ?_, gx1.disj⟩, fun p hp' x hx => hCall p (Nat.lt_of_lt_of_le hp' hb.ext.1) x (hp.child p hp' x hx), IntKind.setSuccAll _ lcl _ hk,
+    fun h => by omega, ?_, ?_⟩
+  · intro e he r hr; exact Nat.lt_of_lt_of_le (gx1.lt e he r hr) hG.size
+  · intro e he r hr
+    exact noPar_setSuccAll st.nodes.size lcl _ (gx1.noPar e he r hr) (hnr e he r hr)
+  · intro e he r hr r' hr'
+    rcases ctx.cur_or_disj hp.gx he with h1 | h1
+    · rw [succAll r ((h1 r).1 hr), succAll r' ((h1 r').1 hr')]
+    · rw [succOther r (h1 r hr), succOther r' (h1 r' hr')]
+      exact gx1.same e he r hr r' hr'
+  · intro _ _ e he hmem
+    have hmem' : st.nodes.size ∈ e.list := hmem
+    have := hp.gx.lt e he _ hmem'
+    omega
+  · refine ⟨fun _ => st.nodes.size, ?_, fun _ => by rw [hmin], fun h => by omega⟩
+    rw [hmin]
+    refine ⟨?_, ?_, fun j h1 h2 => by omega⟩
+    · intro j _ h2
+      have hj : j = 1 := by omega
+      subst hj
+      exact data_of_grow hG (by rw [hsz]; omega) (by rw [ndOf_push_eq]; exact internal_fields li s _ 1 _ _)
+    · intro _ r hr
+      unfold Child
+      rw [succAll r hr]
+      exact Reach.here
+
+theorem step_allocL (ctx : PhCtx g li tm s lid w lcl gl a1) (hb : PhInv g s a1 st)
+    (hp : PhP g li tm s lid w logp rclist lcl gl a1 m st) (hm1 : 1 ≤ m) (hm : m < w.pron.length - 1) (hi : 1 + m + 1 ≠ w.pron.length) :
+    PhP g li tm s lid w logp rclist lcl gl a1 (m + 1)
+      { nodes := setSucc (st.nodes.push (internalNode li s (w.pron.getD (1 + m) 0) (1 + m) w.dictWid (ndOf st.nodes st.pred).succ))
+          st.pred (some st.nodes.size),
+        pred := st.nodes.size } := by
+  obtain ⟨hq, hk, hnr⟩ := new_internal ctx hb hp (1 + m)
+  have hpnr := hp.predLater hm1 hm
+  have hsz : (st.nodes.push (internalNode li s (w.pron.getD (1 + m) 0) (1 + m) w.dictWid (ndOf st.nodes st.pred).succ)).size = st.nodes.size + 1 :=
+    Array.size_push ..
+  have gx1 := hp.gx.quiet hq
+  have hpredlt : st.pred < (st.nodes.push (internalNode li s (w.pron.getD (1 + m) 0) (1 + m) w.dictWid (ndOf st.nodes st.pred).succ)).size := by
+    rw [hsz]; have := hb.pred.1; omega
+  have cm : ChildMono (st.nodes.push (internalNode li s (w.pron.getD (1 + m) 0) (1 + m) w.dictWid (ndOf st.nodes st.pred).succ))
+      (setSucc (st.nodes.push (internalNode li s (w.pron.getD (1 + m) 0) (1 + m) w.dictWid (ndOf st.nodes st.pred).succ)) st.pred (some st.nodes.size)) :=
+    childMono_setSucc (fun _ x hx => by
+      unfold Child at hx
+      rw [hq.succ st.pred hb.pred.1] at hx
+      exact Reach.next (by rw [ndOf_push_eq]; exact hx))
+  have hG1 := grow_setSucc (st.nodes.push (internalNode li s (w.pron.getD (1 + m) 0) (1 + m) w.dictWid (ndOf st.nodes st.pred).succ))
+    st.pred (some st.nodes.size)
+  have hGall := (grow_push hb.inv (internalNode li s (w.pron.getD (1 + m) 0) (1 + m) w.dictWid (ndOf st.nodes st.pred).succ)).trans hG1
+  have hCall : ChildMono st.nodes (setSucc (st.nodes.push (internalNode li s (w.pron.getD (1 + m) 0) (1 + m) w.dictWid (ndOf st.nodes st.pred).succ))
+      st.pred (some st.nodes.size)) := fun p hp' x hx => cm p (by rw [hsz]; omega) x (hq.child p hp' x hx)
+  have hmin : min m (w.pron.length - 2) = m := by omega
+  have hmin' : min (m + 1) (w.pron.length - 2) = m + 1 := by omega
+  obtain ⟨qf, hpath, hpred, _⟩ := hp.path
+  rw [hmin] at hpath hpred
+  have hpath' := hpath.mono hGall hCall (fun r hr => ctx.lcl_lt hp.gx hr)
+  refine ⟨⟨?_, ?_, ?_, gx1.disj⟩, fun p hp' x hx => hCall p (Nat.lt_of_lt_of_le hp' hb.ext.1) x (hp.child p hp' x hx), hk.setSucc _ _,
+    fun h => by omega, ?_, ?_⟩
+  · intro e he r hr; rw [size_setSucc]; exact gx1.lt e he r hr
+  · intro e he r hr
+    exact noPar_setSucc (gx1.noPar e he r hr) (hnr e he r hr)
+  · intro e he r hr r' hr'
+    have h1 : st.pred ≠ r := fun h0 => hpnr e he (h0 ▸ hr)
+    have h2 : st.pred ≠ r' := fun h0 => hpnr e he (h0 ▸ hr')
+    rw [succ_setSucc_ne _ _ h1, succ_setSucc_ne _ _ h2]
+    exact gx1.same e he r hr r' hr'
+  · intro _ _ e he hmem
+    have hmem' : st.nodes.size ∈ e.list := hmem
+    have := hp.gx.lt e he _ hmem'
+    omega
+  · refine ⟨fun j => if j = m + 1 then st.nodes.size else qf j, ?_, fun _ => by rw [hmin']; simp, fun h => by omega⟩
+    rw [hmin']
+    refine ⟨?_, ?_, ?_⟩
+    · intro j h1 h2
+      by_cases hj : j = m + 1
+      · simp only [hj, if_true]
+        have := data_of_grow hG1 (x := st.nodes.size) (by rw [hsz]; omega)
+          (by rw [ndOf_push_eq]; exact internal_fields li s _ (1 + m) _ _)
+        rw [Nat.add_comm m 1]; exact this
+      · simp only [hj, if_false]
+        exact hpath'.data j h1 (by omega)
+    · intro _ r hr
+      have : ¬ (1 = m + 1) := by omega
+      simp only [this, if_false]
+      exact hpath'.first hm1 r hr
+    · intro j h1 h2
+      have hj : ¬ (j = m + 1) := by omega
+      simp only [hj, if_false]
+      by_cases hjm : j = m
+      · subst hjm
+        simp only [if_true]
+        rw [← hpred hm1]
+        unfold Child
+        rw [succ_setSucc _ hpredlt]
+        exact Reach.here
+      · have : ¬ (j + 1 = m + 1) := by omega
+        simp only [this, if_false]
+        exact hpath'.link j h1 (by omega)
+
+/-- the word-final step, for either way of hooking the leaves (`l` = the roots, or the one predecessor) -/
+theorem step_leaf_core (ctx : PhCtx g li tm s lid w lcl gl a1) (hb : PhInv g s a1 st) (hr : Ranked st.nodes)
+    (hp : PhP g li tm s lid w logp rclist lcl gl a1 m st) (hm : m + 2 = w.pron.length) (l : List Nat) (hnd : l.Nodup)
+    (hlv : ∀ x ∈ l, Valid st.nodes s x) (hsame : ∀ r ∈ l, ∀ r' ∈ l, (ndOf st.nodes r).succ = (ndOf st.nodes r').succ)
+    (hsplit : ∀ e ∈ gl, (∀ x ∈ e.list, x ∈ l) ∨ (∀ x ∈ e.list, x ∉ l))
+    (hlinks : ∀ qf : Nat → Nat, (1 ≤ m → st.pred = qf m) → (m = 0 → ∀ r ∈ lcl, r ∈ l) ∧ (1 ≤ m → qf m ∈ l)) :
+    PhP g li tm s lid w logp rclist lcl gl a1 (m + 1)
+      { nodes := attachRoots (rclist.foldl (leafStep li s lid (w.pron.getD (1 + m) 0) (w.pron.getD (1 + m - 1) 0) (1 + m) logp) { nodes := st.nodes }).nodes
+          (rclist.foldl (leafStep li s lid (w.pron.getD (1 + m) 0) (w.pron.getD (1 + m - 1) 0) (1 + m) logp) { nodes := st.nodes }).rcl.head? l,
+        pred := st.pred } := by
+  obtain ⟨⟨hI, hR⟩, hQ, hG, hK, hRG⟩ := leafFold_all (li := li) (tm := tm) (gl := gl) (ci := w.pron.getD (1 + m) 0)
+    (lc := w.pron.getD (1 + m - 1) 0) (p := 1 + m) (logp := logp) st.nodes ctx.hl hb.inv hr hp.kind rclist
+  have gxR := hp.gx.quiet hQ
+  have hhd : ∀ y, (rclist.foldl (leafStep li s lid (w.pron.getD (1 + m) 0) (w.pron.getD (1 + m - 1) 0) (1 + m) logp) { nodes := st.nodes }).rcl.head? = some y →
+      st.nodes.size ≤ y ∧ y < (rclist.foldl (leafStep li s lid (w.pron.getD (1 + m) 0) (w.pron.getD (1 + m - 1) 0) (1 + m) logp) { nodes := st.nodes }).nodes.size :=
+    fun y hy => ⟨hR.rclNew y (head?_mem hy), (hI.rcl y (head?_mem hy)).1⟩
+  -- all of `l` share a child pointer, also after the loop
+  have hsv : ∃ sv, ∀ r ∈ l, (ndOf (rclist.foldl (leafStep li s lid (w.pron.getD (1 + m) 0) (w.pron.getD (1 + m - 1) 0) (1 + m) logp)
+      { nodes := st.nodes }).nodes r).succ = sv := by
+    cases l with
+    | nil => exact ⟨none, nil_all⟩
+    | cons r0 rest =>
+      refine ⟨(ndOf st.nodes r0).succ, fun r hr' => ?_⟩
+      rw [hQ.succ r (hlv r hr').1]
+      exact hsame r hr' r0 (List.mem_cons_self ..)
+  obtain ⟨sv, hsv⟩ := hsv
+  obtain ⟨v, hA⟩ := attachRoots_attached (s := s) (g0 := st.nodes.size) l _ hI.inv hR.ranked hnd (fun x hx => (hlv x hx).ext hI.ext) sv hsv
+    (fun x hx => hI.rcl x (head?_mem hx)) hR.sibNew hhd
+  have hGall := hG.trans hA.grow
+  have hCall : ChildMono st.nodes _ := fun p hp' x hx => hA.child p (Nat.lt_of_lt_of_le hp' hQ.size) x (hQ.child p hp' x hx)
+  have hmin : min m (w.pron.length - 2) = m := by omega
+  have hmin' : min (m + 1) (w.pron.length - 2) = m := by omega
+  obtain ⟨qf, hpath, hpred, _⟩ := hp.path
+  rw [hmin] at hpath hpred
+  have hpath' := hpath.mono hGall hCall (fun r hr => ctx.lcl_lt hp.gx hr)
+  obtain ⟨hl0, hl1⟩ := hlinks qf hpred
+  refine ⟨⟨?_, ?_, ?_, gxR.disj⟩, fun p hp' x hx => hCall p (Nat.lt_of_lt_of_le hp' hb.ext.1) x (hp.child p hp' x hx),
+    hK.same hA.grow (size_attachRoots _ _ _), fun h => by omega, fun _ h => by omega, ?_⟩
+  · intro e he r hr'; exact Nat.lt_of_lt_of_le (gxR.lt e he r hr') hA.grow.size
+  · intro e he r hr'
+    exact hA.noPar r (hp.gx.lt e he r hr') (gxR.noPar e he r hr')
+  · intro e he r hr' r' hr''
+    rcases hsplit e he with h1 | h1
+    · rw [hA.val r (h1 r hr'), hA.val r' (h1 r' hr'')]
+    · rw [hA.other r (h1 r hr'), hA.other r' (h1 r' hr'')]
+      exact gxR.same e he r hr' r' hr''
+  · refine ⟨qf, by rw [hmin']; exact hpath', fun h => by rw [hmin'] at h ⊢; exact hpred h, fun _ => ?_⟩
+    have hk2 : w.pron.length - 2 = m := by omega
+    rw [hk2]
+    intro rc hrc
+    obtain ⟨lf, hlm, hlf⟩ := hRG.cover rc hrc
+    have hllt := (hI.rcl lf hlm).1
+    have hkids := fun r hr' => hA.kids r hr' lf (hRG.headReach lf hlm)
+    refine ⟨lf, Nat.lt_of_lt_of_le hllt hA.grow.size, ?_, fun h0 r hr' => hkids r (hl0 h0 r hr'), fun h1 => hkids _ (hl1 h1)⟩
+    have := hlf.grow hA.grow hllt
+    have e1 : 1 + m = m + 1 := Nat.add_comm 1 m
+    simpa only [e1, Nat.add_sub_cancel] using this
+
+/-- **one step of the loop over the phones keeps the path record** -/
+theorem phoneStep_p (ctx : PhCtx g li tm s lid w lcl gl a1) (hb : PhInv g s a1 st) (hr : Ranked st.nodes)
+    (hp : PhP g li tm s lid w logp rclist lcl gl a1 m st) (hm : m < w.pron.length - 1) :
+    PhP g li tm s lid w logp rclist lcl gl a1 (m + 1) (phoneStep li s lid w logp rclist lcl st (1 + m)) := by
+  by_cases hi : 1 + m + 1 ≠ w.pron.length
+  · cases hf : findChild st.nodes (li.internal w.dictWid (1 + m)) st.nodes.size (ndOf st.nodes st.pred).succ with
+    | some q =>
+      rw [phoneStep_found hi hf]
+      exact step_found ctx hb hp hm hi hf
+    | none =>
+      by_cases hm0 : m = 0
+      · subst hm0
+        rw [phoneStep_allocF hi hf rfl]
+        exact step_allocF ctx hb hp hi hm
+      · rw [phoneStep_allocL hi hf (by omega)]
+        exact step_allocL ctx hb hp (by omega) hm hi
+  · have hi' : 1 + m + 1 = w.pron.length := by omega
+    have hlv : ∀ x ∈ lcl, Valid st.nodes s x := fun x hx => (ctx.hlcl x hx).ext hb.ext
+    by_cases hm0 : m = 0
+    · subst hm0
+      rw [phoneStep_leafF hi' rfl]
+      refine step_leaf_core ctx hb hr hp (by omega) lcl ctx.hnd hlv (fun r hr' r' hr'' => ctx.sameSucc hp.gx hr' hr'') ?_
+        (fun _ _ => ⟨fun _ r hr' => hr', fun h => by omega⟩)
+      intro e he
+      rcases ctx.cur_or_disj hp.gx he with h1 | h1
+      · exact Or.inl (fun x hx => (h1 x).1 hx)
+      · exact Or.inr h1
+    · rw [phoneStep_leafL hi' (by omega), attachOne_eq]
+      have hpnr := hp.predLater (by omega) hm
+      refine step_leaf_core ctx hb hr hp (by omega) [st.pred] (by simp) ?_ ?_ ?_ ?_
+      · intro x hx
+        simp only [List.mem_singleton] at hx
+        rw [hx]; exact hb.pred
+      · intro r hr' r' hr''
+        simp only [List.mem_singleton] at hr' hr''
+        rw [hr', hr'']
+      · intro e he
+        refine Or.inr (fun x hx hx2 => ?_)
+        simp only [List.mem_singleton] at hx2
+        exact hpnr e he (hx2 ▸ hx)
+      · intro qf hq
+        exact ⟨fun h => by omega, fun h => by rw [← hq h]; exact List.mem_singleton.2 rfl⟩
+
+end Step
+
+/-! ### one multi-phone arc -/
+
+/-- the loop over the phones `1..n-1` of a multi-phone word -/
+theorem phones_fold {g : Fsg} {li : LexIn} {tm : Nat → Nat} {s lid : Nat} {w : WordInfo} {logp : Int} {rclist lcl : List Nat}
+    {gl : List GEntry} {a1 : Array PNode} (ctx : PhCtx g li tm s lid w lcl gl a1) (inv : GInv g a1) (hr : Ranked a1) (gx : GX gl a1)
+    (hk : IntKind li tm s gl [] a1) {pred : Nat} (hpred : pred ∈ lcl) :
+    Grow a1 (((List.range w.pron.length).drop 1).foldl (phoneStep li s lid w logp rclist lcl) { nodes := a1, pred }).nodes ∧
+    PhP g li tm s lid w logp rclist lcl gl a1 (w.pron.length - 1)
+      (((List.range w.pron.length).drop 1).foldl (phoneStep li s lid w logp rclist lcl) { nodes := a1, pred }) := by
+  rw [drop1_range]
+  have h := fold_range'
+    (fun m st => (PhInv g s a1 st ∧ Ranked st.nodes ∧ Grow a1 st.nodes) ∧ PhP g li tm s lid w logp rclist lcl gl a1 m st)
+    (phoneStep li s lid w logp rclist lcl) (w.pron.length - 1) { nodes := a1, pred }
+    ⟨⟨⟨inv, Ext.refl _, ctx.hlcl pred hpred⟩, hr, Grow.refl _⟩,
+     ⟨gx, fun _ _ _ h => h, hk, fun _ => hpred, fun h => by omega,
+      ⟨fun _ => 0, ⟨fun j h1 h2 => by omega, fun h => by omega, fun j h1 h2 => by omega⟩, fun h => by omega,
+        fun h => by have := ctx.n2; omega⟩⟩⟩
+    (fun m st hm h' => ⟨⟨phoneStep_inv ctx.hl ctx.hlcl st (1 + m) h'.1.1,
+        phoneStep_ranked ctx.hl ctx.hlcl ctx.hnd st (1 + m) h'.1.1 h'.1.2.1,
+        h'.1.2.2.trans (phoneStep_grow0 ctx.hl ctx.hlcl st (1 + m) h'.1.1 h'.1.2.1)⟩,
+      phoneStep_p ctx h'.1.1 h'.1.2.1 h'.2 hm⟩)
+  exact ⟨h.1.2.2, h.2⟩
+
+theorem findG_spec (ci rc : Nat) : ∀ (l : List GEntry) (i j : Nat) (e : GEntry), findG ci rc l i = some (j, e) →
+    e ∈ l ∧ (e.list.isEmpty = true ∨ (e.ci = ci ∧ e.rc = rc)) := by
+  intro l
+  induction l with
+  | nil => intro i j e h; simp [findG] at h
+  | cons a rest ih =>
+    intro i j e h
+    simp only [findG] at h
+    split at h
+    · rename_i hc
+      cases h
+      refine ⟨List.mem_cons_self .., ?_⟩
+      simp only [Bool.or_eq_true, Bool.and_eq_true, beq_iff_eq] at hc
+      exact hc
+    · obtain ⟨h1, h2⟩ := ih _ _ _ h
+      exact ⟨List.mem_cons_of_mem _ h1, h2⟩
+
+/-- arc `lid` (a word of `n ≥ 2` phones) is in the lextree of state `s`: a set of roots of the state covering every left
+context, the chain of word-internal pnodes under ALL of them, and under its end leaves covering every right context -/
+def MultiOK (li : LexIn) (g : Fsg) (s : Nat) (lclist rclist : List Nat) (a : Array PNode) (root : Option Nat) (lid : Nat) : Prop :=
+  ∃ (lcl : List Nat) (qf : Nat → Nat),
+    (∀ r ∈ lcl, r < a.size ∧ Reach a root r) ∧
+    (∀ lc ∈ lclist, ∃ r ∈ lcl, Has (ndOf a r) s false 0
+      (li.ldiph ((li.word (g.link lid).wid.toNat).pron.headD 0) ((li.word (g.link lid).wid.toNat).pron.getD 1 0) lc)
+      (li.tmat ((li.word (g.link lid).wid.toNat).pron.headD 0)) (li.wip + li.pip) ((li.word (g.link lid).wid.toNat).pron.headD 0) (some lc)) ∧
+    PathK li (li.word (g.link lid).wid.toNat) lcl a qf ((li.word (g.link lid).wid.toNat).pron.length - 2) ∧
+    LeafK li s lid (li.word (g.link lid).wid.toNat) (g.link lid).logp rclist lcl a qf ((li.word (g.link lid).wid.toNat).pron.length - 2)
+
+theorem MultiOK.mono {li : LexIn} {g : Fsg} {s : Nat} {lclist rclist : List Nat} {a a' : Array PNode} {root root' : Option Nat} {lid : Nat}
+    (h : MultiOK li g s lclist rclist a root lid) (hg : Grow a a') (hc : ChildMono a a') (hm : RootMono a root a' root') :
+    MultiOK li g s lclist rclist a' root' lid := by
+  obtain ⟨lcl, qf, h1, h2, h3, h4⟩ := h
+  have hl : ∀ r ∈ lcl, r < a.size := fun r hr => (h1 r hr).1
+  refine ⟨lcl, qf, fun r hr => ⟨Nat.lt_of_lt_of_le (hl r hr) hg.size, hm r (h1 r hr).2⟩, ?_, h3.mono hg hc hl,
+    h4.mono hg hc hl (fun hk => (h3.data _ hk (Nat.le_refl _)).1)⟩
+  intro lc hlc
+  obtain ⟨r, hr, hh⟩ := h2 lc hlc
+  exact ⟨r, hr, hh.grow hg (hl r hr)⟩
+
+/-- the exact and the covering facts about the root sets of the state under construction -/
+structure WX (li : LexIn) (tm : Nat → Nat) (s : Nat) (lclist : List Nat) (w : Bld) : Prop where
+  gx : GX w.glists w.nodes
+  kind : IntKind li tm s w.glists [] w.nodes
+  nonempty : ∀ e ∈ w.glists, e.list ≠ []
+  sets : ∀ e ∈ w.glists, (∀ r ∈ e.list, Reach w.nodes w.root r) ∧
+    ∀ lc ∈ lclist, ∃ r ∈ e.list, Has (ndOf w.nodes r) s false 0 (li.ldiph e.ci e.rc lc) (li.tmat e.ci) (li.wip + li.pip) e.ci (some lc)
+
+/-- arcs that only allocate and set context bits -/
+theorem WX.quiet {li : LexIn} {tm : Nat → Nat} {s : Nat} {lclist : List Nat} {w : Bld} (h : WX li tm s lclist w) {a' : Array PNode}
+    {root' : Option Nat} (hq : Quiet w.nodes a') (hg : Grow w.nodes a') (hm : RootMono w.nodes w.root a' root')
+    (hk : IntKind li tm s w.glists [] a') : WX li tm s lclist { w with nodes := a', root := root' } := by
+  refine ⟨h.gx.quiet hq, hk, h.nonempty, ?_⟩
+  intro e he
+  obtain ⟨h1, h2⟩ := h.sets e he
+  refine ⟨fun r hr => hm r (h1 r hr), fun lc hlc => ?_⟩
+  obtain ⟨r, hr, hh⟩ := h2 lc hlc
+  exact ⟨r, hr, hh.grow hg (h.gx.lt e he r hr)⟩
+
+/-- the word-initial loop, everything at once -/
+theorem rootFold_all {g : Fsg} {li : LexIn} {tm : Nat → Nat} {s ci rc : Nat} {a0 : Array PNode} (w0 : Bld) (h : WInv g s a0 w0)
+    (hr : WR w0) (hk : IntKind li tm s w0.glists [] w0.nodes) (lclist : List Nat) :
+    (LcInv g s w0.nodes (lclist.foldl (rootStep li s ci rc) { nodes := w0.nodes, root := w0.root, lcl := [] }) ∧
+      LcR (lclist.foldl (rootStep li s ci rc) { nodes := w0.nodes, root := w0.root, lcl := [] })) ∧
+    Quiet w0.nodes (lclist.foldl (rootStep li s ci rc) { nodes := w0.nodes, root := w0.root, lcl := [] }).nodes ∧
+    Grow w0.nodes (lclist.foldl (rootStep li s ci rc) { nodes := w0.nodes, root := w0.root, lcl := [] }).nodes ∧
+    RootMono w0.nodes w0.root (lclist.foldl (rootStep li s ci rc) { nodes := w0.nodes, root := w0.root, lcl := [] }).nodes
+      (lclist.foldl (rootStep li s ci rc) { nodes := w0.nodes, root := w0.root, lcl := [] }).root ∧
+    IntKind li tm s w0.glists (lclist.foldl (rootStep li s ci rc) { nodes := w0.nodes, root := w0.root, lcl := [] }).lcl
+      (lclist.foldl (rootStep li s ci rc) { nodes := w0.nodes, root := w0.root, lcl := [] }).nodes ∧
+    RtG li s ci rc w0.nodes lclist (lclist.foldl (rootStep li s ci rc) { nodes := w0.nodes, root := w0.root, lcl := [] }) := by
+  have hf := foldl_inv_prefix
+    (fun done st => (LcInv g s w0.nodes st ∧ LcR st) ∧ Quiet w0.nodes st.nodes ∧ Grow w0.nodes st.nodes ∧
+      RootMono w0.nodes w0.root st.nodes st.root ∧ IntKind li tm s w0.glists st.lcl st.nodes ∧ RtG li s ci rc w0.nodes done st)
+    (rootStep li s ci rc) lclist [] { nodes := w0.nodes, root := w0.root, lcl := [] }
+    ⟨⟨⟨h.inv, Ext.refl _, h.root, nil_all, nil_all⟩, ⟨hr.ranked, List.nodup_nil⟩⟩, Quiet.refl _, Grow.refl _, fun _ hx => hx, hk,
+      ⟨nil_all, nil_all, nil_all, nil_all, nil_all, nil_all, nil_all, fun h0 => absurd rfl h0⟩⟩
+    (fun d st lc _ h' => ⟨⟨rootStep_inv st lc h'.1.1, rootStep_ranked st lc h'.1.1 h'.1.2⟩,
+      h'.2.1.trans (rootStep_quiet st lc h'.1.1), h'.2.2.1.trans (rootStep_grow0 st lc h'.1.1).1,
+      h'.2.2.2.1.trans (rootStep_grow0 st lc h'.1.1).2, rootStep_kind st lc h'.1.1 h'.2.2.2.2.1,
+      rootStep_g st lc h'.1.1 h'.2.2.2.2.2⟩)
+  simpa using hf
+
+/-- the roots of a set move from `extra` into the list of sets -/
+theorem IntKind.intoSets {li : LexIn} {tm : Nat → Nat} {s : Nat} {gl : List GEntry} {extra : List Nat} {a : Array PNode}
+    (h : IntKind li tm s gl extra a) (e : GEntry) (he : e.list = extra) : IntKind li tm s (e :: gl) [] a := by
+  intro x hx ho hl
+  rcases h x hx ho hl with ⟨e', he', hx'⟩ | h1 | h1
+  · exact Or.inl ⟨e', List.mem_cons_of_mem _ he', hx'⟩
+  · exact Or.inl ⟨e, List.mem_cons_self .., by rw [he]; exact h1⟩
+  · exact Or.inr (Or.inr h1)
+
+/-- a multi-phone word over a root set `lcl` that is among the sets `gl` -/
+theorem multi_core {g : Fsg} {li : LexIn} {tm : Nat → Nat} {s lid : Nat} {rclist lclist lcl : List Nat} {gl : List GEntry}
+    {a1 : Array PNode} {root : Option Nat} (ctx : PhCtx g li tm s lid (li.word (g.link lid).wid.toNat) lcl gl a1) (inv : GInv g a1)
+    (hr : Ranked a1) (gx : GX gl a1) (hk : IntKind li tm s gl [] a1) {pred : Nat} (hpred : pred ∈ lcl)
+    (hroots : ∀ r ∈ lcl, Reach a1 root r)
+    (hcover : ∀ lc ∈ lclist, ∃ r ∈ lcl, Has (ndOf a1 r) s false 0
+      (li.ldiph ((li.word (g.link lid).wid.toNat).pron.headD 0) ((li.word (g.link lid).wid.toNat).pron.getD 1 0) lc)
+      (li.tmat ((li.word (g.link lid).wid.toNat).pron.headD 0)) (li.wip + li.pip) ((li.word (g.link lid).wid.toNat).pron.headD 0) (some lc))
+    (hrootv : ∀ y, root = some y → y < a1.size) :
+    let a' := (((List.range (li.word (g.link lid).wid.toNat).pron.length).drop 1).foldl
+      (phoneStep li s lid (li.word (g.link lid).wid.toNat) (g.link lid).logp rclist lcl) { nodes := a1, pred }).nodes
+    Grow a1 a' ∧ ChildMono a1 a' ∧ GX gl a' ∧ IntKind li tm s gl [] a' ∧ MultiOK li g s lclist rclist a' root lid := by
+  intro a'
+  obtain ⟨hG, hP⟩ := phones_fold (logp := (g.link lid).logp) (rclist := rclist) ctx inv hr gx hk hpred
+  refine ⟨hG, hP.child, hP.gx, hP.kind, ?_⟩
+  obtain ⟨qf, hpath, _, hleaf⟩ := hP.path
+  have hmin : min ((li.word (g.link lid).wid.toNat).pron.length - 1) ((li.word (g.link lid).wid.toNat).pron.length - 2) =
+      (li.word (g.link lid).wid.toNat).pron.length - 2 := by omega
+  rw [hmin] at hpath
+  refine ⟨lcl, qf, fun r hr' => ⟨Nat.lt_of_lt_of_le (ctx.lcl_lt gx hr') hG.size, hG.reachO hrootv (hroots r hr')⟩, ?_, hpath, hleaf rfl⟩
+  intro lc hlc
+  obtain ⟨r, hr', hh⟩ := hcover lc hlc
+  exact ⟨r, hr', hh.grow hG (ctx.lcl_lt gx hr')⟩
+
+theorem headD_mem {l : List Nat} (h : l ≠ []) : l.headD 0 ∈ l := by
+  cases l with
+  | nil => exact absurd rfl h
+  | cons x xs => exact List.mem_cons_self ..
+
+/-- **`psubtree_add_trans` keeps the facts about the root sets, loses no child, and represents a multi-phone arc** -/
+theorem addTrans_x {g : Fsg} {li : LexIn} {tm : Nat → Nat} {s : Nat} {lclist rclist : List Nat} {a0 : Array PNode} (hlc : lclist ≠ [])
+    (w0 : Bld) (lid : Nat) (hl : lid < g.links.size ∧ (g.link lid).src = s ∧ 0 ≤ (g.link lid).wid)
+    (h : WInv g s a0 w0) (hr : WR w0) (hx : WX li tm s lclist w0) (htm : SsidTmat li tm)
+    (hn : 1 ≤ (li.word (g.link lid).wid.toNat).pron.length) :
+    WX li tm s lclist (addTrans li g s lclist rclist w0 lid) ∧
+    ChildMono w0.nodes (addTrans li g s lclist rclist w0 lid).nodes ∧
+    (2 ≤ (li.word (g.link lid).wid.toNat).pron.length →
+      MultiOK li g s lclist rclist (addTrans li g s lclist rclist w0 lid).nodes (addTrans li g s lclist rclist w0 lid).root lid) := by
+  have hv : ∀ y, w0.root = some y → y < w0.nodes.size := fun y hy => (h.root y hy).1
+  unfold addTrans
+  simp only
+  split
+  · rename_i h1
+    split
+    · have hf := foldl_inv (fun st => LcInv g s w0.nodes st ∧ Quiet w0.nodes st.nodes ∧ Grow w0.nodes st.nodes ∧
+            RootMono w0.nodes w0.root st.nodes st.root ∧ IntKind li tm s w0.glists [] st.nodes)
+          (singleStep li s lid ((li.word (g.link lid).wid.toNat).pron.headD 0) (g.link lid).logp) lclist
+          { nodes := w0.nodes, root := w0.root, lcl := [] }
+          ⟨⟨h.inv, Ext.refl _, h.root, nil_all, nil_all⟩, Quiet.refl _, Grow.refl _, fun _ hx' => hx', hx.kind⟩
+          (fun st lc _ h' => ⟨singleStep_inv hl st lc h'.1, h'.2.1.trans (singleStep_quiet st lc h'.1),
+            h'.2.2.1.trans (singleStep_grow0 st lc h'.1).1, h'.2.2.2.1.trans (singleStep_grow0 st lc h'.1).2,
+            singleStep_kind st lc h'.1 h'.2.2.2.2⟩)
+      exact ⟨hx.quiet hf.2.1 hf.2.2.1 hf.2.2.2.1 hf.2.2.2.2, hf.2.1.child, fun h2 => by omega⟩
+    · exact ⟨hx.quiet (quiet_push h.inv rfl) (grow_push h.inv _) (rootMono_push h.inv hv rfl)
+        (hx.kind.push h.inv _ (fun _ hx' => hx') (fun hl' => by cases hl')), (quiet_push h.inv rfl).child, fun h2 => by omega⟩
+  · rename_i h1
+    have hn2 : 2 ≤ (li.word (g.link lid).wid.toNat).pron.length := by omega
+    split
+    · rename_i i e hf
+      obtain ⟨he, hspec⟩ := findG_spec _ _ _ _ _ _ hf
+      have hne := hx.nonempty e he
+      have hemp : e.list.isEmpty = false := by
+        cases hel : e.list with
+        | nil => exact absurd hel hne
+        | cons _ _ => rfl
+      have hcirc : e.ci = (li.word (g.link lid).wid.toNat).pron.headD 0 ∧ e.rc = (li.word (g.link lid).wid.toNat).pron.getD 1 0 := by
+        rcases hspec with h2 | h2
+        · rw [hemp] at h2; cases h2
+        · exact h2
+      simp only [hemp, Bool.not_false, if_true]
+      have ctx : PhCtx g li tm s lid (li.word (g.link lid).wid.toNat) e.list w0.glists w0.nodes :=
+        ⟨hl, rfl, h.glists e he, hr.nodup e he, ⟨e, he, rfl⟩, htm, hn2⟩
+      obtain ⟨hG, hC, hgx, hkd, hM⟩ := multi_core (rclist := rclist) (lclist := lclist) (root := w0.root) ctx h.inv hr.ranked hx.gx hx.kind
+        (headD_mem hne) (hx.sets e he).1 (by rw [← hcirc.1, ← hcirc.2]; exact (hx.sets e he).2) hv
+      refine ⟨⟨hgx, hkd, hx.nonempty, ?_⟩, hC, fun _ => hM⟩
+      intro e' he'
+      obtain ⟨s1, s2⟩ := hx.sets e' he'
+      refine ⟨fun r hr' => hG.reachO hv (s1 r hr'), fun lc hlc' => ?_⟩
+      obtain ⟨r, hr', hh⟩ := s2 lc hlc'
+      exact ⟨r, hr', hh.grow hG (hx.gx.lt e' he' r hr')⟩
+    · -- a new set of roots
+      obtain ⟨⟨hI, hR⟩, hQ, hG, hM, hK, hT⟩ := rootFold_all (li := li) (tm := tm) (ci := (li.word (g.link lid).wid.toNat).pron.headD 0)
+        (rc := (li.word (g.link lid).wid.toNat).pron.getD 1 0) w0 h hr hx.kind lclist
+      have hlclne : (lclist.foldl (rootStep li s ((li.word (g.link lid).wid.toNat).pron.headD 0)
+          ((li.word (g.link lid).wid.toNat).pron.getD 1 0)) { nodes := w0.nodes, root := w0.root, lcl := [] }).lcl ≠ [] := by
+        have hlm : (lclist.foldl (rootStep li s ((li.word (g.link lid).wid.toNat).pron.headD 0)
+            ((li.word (g.link lid).wid.toNat).pron.getD 1 0)) { nodes := w0.nodes, root := w0.root, lcl := [] }).lmap ≠ [] := by
+          cases lclist with
+          | nil => exact absurd rfl hlc
+          | cons x rest =>
+            simp only [List.foldl_cons]
+            exact (rootFold_root li s _ _ rest _ (rootStep_root li s _ _ _ x (Or.inl rfl))).1
+        intro h0
+        cases hlmap : (lclist.foldl (rootStep li s ((li.word (g.link lid).wid.toNat).pron.headD 0)
+            ((li.word (g.link lid).wid.toNat).pron.getD 1 0)) { nodes := w0.nodes, root := w0.root, lcl := [] }).lmap with
+        | nil => exact hlm hlmap
+        | cons y ys =>
+          have := hT.lmapSub y (by rw [hlmap]; exact List.mem_cons_self ..)
+          rw [h0] at this; cases this
+      generalize hRdef : lclist.foldl (rootStep li s ((li.word (g.link lid).wid.toNat).pron.headD 0)
+          ((li.word (g.link lid).wid.toNat).pron.getD 1 0)) { nodes := w0.nodes, root := w0.root, lcl := [] } = R at *
+      have gxQ := hx.gx.quiet hQ
+      have hgx' : GX (GEntry.mk ((li.word (g.link lid).wid.toNat).pron.headD 0) ((li.word (g.link lid).wid.toNat).pron.getD 1 0) R.lcl :: w0.glists) R.nodes := by
+        refine ⟨?_, ?_, ?_, ?_⟩
+        · intro e' he' r hr'
+          rcases List.mem_cons.1 he' with h2 | h2
+          · rw [h2] at hr'; exact (hI.lcl r hr').1
+          · exact gxQ.lt e' h2 r hr'
+        · intro e' he' r hr'
+          rcases List.mem_cons.1 he' with h2 | h2
+          · rw [h2] at hr'; exact hT.noPar r hr'
+          · exact gxQ.noPar e' h2 r hr'
+        · intro e' he' r hr' r' hr''
+          rcases List.mem_cons.1 he' with h2 | h2
+          · rw [h2] at hr' hr''; rw [hT.succNone r hr', hT.succNone r' hr'']
+          · exact gxQ.same e' h2 r hr' r' hr''
+        · intro e1 he1 e2 he2 x hx1 hx2
+          rcases List.mem_cons.1 he1 with h2 | h2 <;> rcases List.mem_cons.1 he2 with h3 | h3
+          · rw [h2, h3]
+          · rw [h2] at hx1
+            have := hT.fresh x hx1
+            have := hx.gx.lt e2 h3 x hx2
+            omega
+          · rw [h3] at hx2
+            have := hT.fresh x hx2
+            have := hx.gx.lt e1 h2 x hx1
+            omega
+          · exact gxQ.disj e1 h2 e2 h3 x hx1 hx2
+      have hpredm : R.root.getD 0 ∈ R.lcl := by
+        rw [hT.rootHead hlclne]
+        cases hl' : R.lcl with
+        | nil => exact absurd hl' hlclne
+        | cons y ys => exact List.mem_cons_self ..
+      have ctx : PhCtx g li tm s lid (li.word (g.link lid).wid.toNat) R.lcl
+          (GEntry.mk ((li.word (g.link lid).wid.toNat).pron.headD 0) ((li.word (g.link lid).wid.toNat).pron.getD 1 0) R.lcl :: w0.glists) R.nodes :=
+        ⟨hl, rfl, hI.lcl, hR.nodup, ⟨_, List.mem_cons_self .., rfl⟩, htm, hn2⟩
+      obtain ⟨hG2, hC2, hgx2, hkd2, hM2⟩ := multi_core (rclist := rclist) (lclist := lclist) (root := R.root) ctx hI.inv hR.ranked hgx'
+        (hK.intoSets _ rfl) hpredm hT.lclReach hT.cover (fun y hy => (hI.root y hy).1)
+      refine ⟨⟨hgx2, hkd2, ?_, ?_⟩, fun p hp x hx' => hC2 p (Nat.lt_of_lt_of_le hp hQ.size) x (hQ.child p hp x hx'), fun _ => hM2⟩
+      · intro e' he'
+        rcases List.mem_cons.1 he' with h2 | h2
+        · rw [h2]; exact hlclne
+        · exact hx.nonempty e' h2
+      · intro e' he'
+        rcases List.mem_cons.1 he' with h2 | h2
+        · rw [h2]
+          refine ⟨fun r hr' => hG2.reachO (fun y hy => (hI.root y hy).1) (hT.lclReach r hr'), fun lc hlc' => ?_⟩
+          obtain ⟨r, hr', hh⟩ := hT.cover lc hlc'
+          exact ⟨r, hr', hh.grow hG2 (hI.lcl r hr').1⟩
+        · obtain ⟨s1, s2⟩ := hx.sets e' h2
+          refine ⟨fun r hr' => hG2.reachO (fun y hy => (hI.root y hy).1) (hM r (s1 r hr')), fun lc hlc' => ?_⟩
+          obtain ⟨r, hr', hh⟩ := s2 lc hlc'
+          exact ⟨r, hr', hh.grow (hG.trans hG2) (hx.gx.lt e' h2 r hr')⟩
+
+/-! ### every pnode allocated for state `s` has owner `s` -/
+
+def OwnSince (base s : Nat) (a : Array PNode) : Prop := ∀ x, base ≤ x → x < a.size → (ndOf a x).owner = s
+
+theorem OwnSince.push {base s : Nat} {a : Array PNode} (h : OwnSince base s a) {n : PNode} (hn : n.owner = s) : OwnSince base s (a.push n) := by
+  intro x hb hx
+  rw [Array.size_push] at hx
+  by_cases hlt : x < a.size
+  · rw [ndOf_push_lt a n hlt]; exact h x hb hlt
+  · have : x = a.size := by omega
+    subst this
+    rw [ndOf_push_eq]; exact hn
+
+theorem OwnSince.same {base s : Nat} {a a' : Array PNode} (h : OwnSince base s a) (hg : Grow a a') (hs : a'.size = a.size) :
+    OwnSince base s a' := by
+  intro x hb hx
+  rw [hs] at hx
+  rw [(core_fields (hg.stable x hx)).1]; exact h x hb hx
+
+theorem singleStep_own {li : LexIn} {base s lid ci : Nat} {logp : Int} (st : LcSt) (lc : Nat) (h : OwnSince base s st.nodes) :
+    OwnSince base s (singleStep li s lid ci logp st lc).nodes := by
+  unfold singleStep
+  simp only
+  split
+  · exact h.same (grow_addCtxt _ _ _) (size_addCtxt _ _ _)
+  · exact h.push rfl
+
+theorem rootStep_own {li : LexIn} {base s ci rc : Nat} (st : LcSt) (lc : Nat) (h : OwnSince base s st.nodes) :
+    OwnSince base s (rootStep li s ci rc st lc).nodes := by
+  unfold rootStep
+  simp only
+  split
+  · exact h.same (grow_addCtxt _ _ _) (size_addCtxt _ _ _)
+  · exact (h.push rfl).same (grow_addCtxt _ _ _) (size_addCtxt _ _ _)
+
+theorem leafStep_own {li : LexIn} {base s lid ci lc p : Nat} {logp : Int} (st : RcSt) (rc : Nat) (h : OwnSince base s st.nodes) :
+    OwnSince base s (leafStep li s lid ci lc p logp st rc).nodes := by
+  unfold leafStep
+  split
+  · exact h.same (grow_addCtxt _ _ _) (size_addCtxt _ _ _)
+  · exact (h.push rfl).same (grow_addCtxt _ _ _) (size_addCtxt _ _ _)
+
+theorem size_setSuccAll (id : Nat) : ∀ (l : List Nat) (a : Array PNode), (l.foldl (fun a r => setSucc a r (some id)) a).size = a.size := by
+  intro l
+  induction l with
+  | nil => intro a; rfl
+  | cons r rest ih => intro a; simp only [List.foldl_cons]; rw [ih, size_setSucc]
+
+theorem phoneStep_own {g : Fsg} {li : LexIn} {base s lid : Nat} {w : WordInfo} {logp : Int} {rclist lcl : List Nat} {a0 : Array PNode}
+    (hl : lid < g.links.size ∧ (g.link lid).src = s ∧ 0 ≤ (g.link lid).wid) (hlcl : ∀ x ∈ lcl, Valid a0 s x)
+    (st : PhSt) (p : Nat) (hb : PhInv g s a0 st) (hr : Ranked st.nodes) (h : OwnSince base s st.nodes) :
+    OwnSince base s (phoneStep li s lid w logp rclist lcl st p).nodes := by
+  have hlcl' : ∀ x ∈ lcl, Valid st.nodes s x := fun x hx => (hlcl x hx).ext hb.ext
+  unfold phoneStep
+  simp only
+  split
+  · split
+    · exact h
+    · split
+      · exact (h.push rfl).same (grow_setSuccAll _ lcl _) (size_setSuccAll _ lcl _)
+      · exact (h.push rfl).same (grow_setSucc _ _ _) (size_setSucc _ _ _)
+  · have hrr := foldl_inv (fun st' => (RcInv g s st.nodes st' ∧ RcR st.nodes st') ∧ OwnSince base s st'.nodes)
+        (leafStep li s lid (w.pron.getD p 0) (w.pron.getD (p - 1) 0) p logp) rclist { nodes := st.nodes }
+        ⟨⟨⟨hb.inv, Ext.refl _, nil_all, nil_all⟩,
+          ⟨hr, Nat.le_refl _, fun _ _ => rfl, fun _ _ => rfl, fun x h1 h2 => absurd h2 (Nat.not_lt.2 h1), nil_all⟩⟩, h⟩
+        (fun st' rc _ h' => ⟨⟨leafStep_inv hl st' rc h'.1.1, leafStep_ranked st' rc h'.1.1 h'.1.2⟩, leafStep_own st' rc h'.2⟩)
+    obtain ⟨⟨hI, hR⟩, hO⟩ := hrr
+    have hhd : OValid _ s (rclist.foldl (leafStep li s lid (w.pron.getD p 0) (w.pron.getD (p - 1) 0) p logp)
+        { nodes := st.nodes }).rcl.head? := fun x hx => hI.rcl x (head?_mem hx)
+    split
+    · exact hO.same (attachRoots_grow0 lcl _ hI.inv hR.ranked (fun x hx => (hlcl' x hx).ext hI.ext) hhd) (size_attachRoots _ _ _)
+    · rw [attachOne_eq]
+      exact hO.same (attachRoots_grow0 [st.pred] _ hI.inv hR.ranked (fun x hx => by
+        simp only [List.mem_singleton] at hx; rw [hx]; exact hb.pred.ext hI.ext) hhd) (size_attachRoots _ _ _)
+
+theorem addTrans_own {g : Fsg} {li : LexIn} {base s : Nat} {lclist rclist : List Nat} {a0 : Array PNode} (hlc : lclist ≠ [])
+    (w0 : Bld) (lid : Nat) (hl : lid < g.links.size ∧ (g.link lid).src = s ∧ 0 ≤ (g.link lid).wid)
+    (h : WInv g s a0 w0) (hr : WR w0) (ho : OwnSince base s w0.nodes) :
+    OwnSince base s (addTrans li g s lclist rclist w0 lid).nodes := by
+  unfold addTrans
+  simp only
+  split
+  · split
+    · exact (foldl_inv (fun st => OwnSince base s st.nodes)
+          (singleStep li s lid ((li.word (g.link lid).wid.toNat).pron.headD 0) (g.link lid).logp) lclist
+          { nodes := w0.nodes, root := w0.root, lcl := [] } ho (fun st lc _ h' => singleStep_own st lc h'))
+    · exact ho.push rfl
+  · have hfresh : ∀ ci rc, ((LcInv g s w0.nodes (lclist.foldl (rootStep li s ci rc) { nodes := w0.nodes, root := w0.root, lcl := [] }) ∧
+        LcR (lclist.foldl (rootStep li s ci rc) { nodes := w0.nodes, root := w0.root, lcl := [] })) ∧
+        OwnSince base s (lclist.foldl (rootStep li s ci rc) { nodes := w0.nodes, root := w0.root, lcl := [] }).nodes) ∧
+        (lclist.foldl (rootStep li s ci rc) { nodes := w0.nodes, root := w0.root, lcl := [] }).root.isSome = true := by
+      intro ci rc
+      refine ⟨foldl_inv (fun st => (LcInv g s w0.nodes st ∧ LcR st) ∧ OwnSince base s st.nodes)
+        _ lclist _ ⟨⟨⟨h.inv, Ext.refl _, h.root, nil_all, nil_all⟩, ⟨hr.ranked, List.nodup_nil⟩⟩, ho⟩
+        (fun st lc _ h' => ⟨⟨rootStep_inv st lc h'.1.1, rootStep_ranked st lc h'.1.1 h'.1.2⟩, rootStep_own st lc h'.2⟩), ?_⟩
+      cases lclist with
+      | nil => exact absurd rfl hlc
+      | cons x rest =>
+        simp only [List.foldl_cons]
+        exact (rootFold_root li s ci rc rest _ (rootStep_root li s ci rc _ x (Or.inl rfl))).2
+    have key : ∀ (a1 : Array PNode) (lcl : List Nat) (pred : Nat), GInv g a1 → (∀ x ∈ lcl, Valid a1 s x) → lcl.Nodup →
+        Valid a1 s pred → Ranked a1 → OwnSince base s a1 →
+        OwnSince base s (((List.range (li.word (g.link lid).wid.toNat).pron.length).drop 1).foldl
+          (phoneStep li s lid (li.word (g.link lid).wid.toNat) (g.link lid).logp rclist lcl) { nodes := a1, pred }).nodes := by
+      intro a1 lcl pred h1 hlcl hnd hpred hrk ho1
+      exact (foldl_inv (fun st => (PhInv g s a1 st ∧ Ranked st.nodes) ∧ OwnSince base s st.nodes) _ _ _
+        ⟨⟨⟨h1, Ext.refl _, hpred⟩, hrk⟩, ho1⟩
+        (fun st p _ h' => ⟨⟨phoneStep_inv hl hlcl st p h'.1.1, phoneStep_ranked hl hlcl hnd st p h'.1.1 h'.1.2⟩,
+          phoneStep_own hl hlcl st p h'.1.1 h'.1.2 h'.2⟩)).2
+    split
+    · rename_i i e hf
+      have hmem := findG_mem _ _ _ _ _ _ hf
+      split
+      · rename_i hne
+        have hpred : Valid w0.nodes s (e.list.headD 0) := by
+          cases hel : e.list with
+          | nil => rw [hel] at hne; simp at hne
+          | cons y ys => exact h.glists e hmem y (by rw [hel]; exact List.mem_cons_self ..)
+        exact key w0.nodes e.list (e.list.headD 0) h.inv (fun x hx => h.glists e hmem x hx) (hr.nodup e hmem) hpred hr.ranked ho
+      · obtain ⟨⟨⟨hI, hR⟩, hO⟩, hsome⟩ := hfresh ((li.word (g.link lid).wid.toNat).pron.headD 0) ((li.word (g.link lid).wid.toNat).pron.getD 1 0)
+        exact key _ _ ((lclist.foldl (rootStep li s ((li.word (g.link lid).wid.toNat).pron.headD 0)
+            ((li.word (g.link lid).wid.toNat).pron.getD 1 0)) { nodes := w0.nodes, root := w0.root, lcl := [] }).root.getD 0)
+          hI.inv hI.lcl hR.nodup (by
+            cases hroot : (lclist.foldl (rootStep li s ((li.word (g.link lid).wid.toNat).pron.headD 0)
+                ((li.word (g.link lid).wid.toNat).pron.getD 1 0)) { nodes := w0.nodes, root := w0.root, lcl := [] }).root with
+            | none => rw [hroot] at hsome; cases hsome
+            | some r => exact hI.root r hroot) hR.ranked hO
+    · obtain ⟨⟨⟨hI, hR⟩, hO⟩, hsome⟩ := hfresh ((li.word (g.link lid).wid.toNat).pron.headD 0) ((li.word (g.link lid).wid.toNat).pron.getD 1 0)
+      exact key _ _ ((lclist.foldl (rootStep li s ((li.word (g.link lid).wid.toNat).pron.headD 0)
+          ((li.word (g.link lid).wid.toNat).pron.getD 1 0)) { nodes := w0.nodes, root := w0.root, lcl := [] }).root.getD 0)
+        hI.inv hI.lcl hR.nodup (by
+          cases hroot : (lclist.foldl (rootStep li s ((li.word (g.link lid).wid.toNat).pron.headD 0)
+              ((li.word (g.link lid).wid.toNat).pron.getD 1 0)) { nodes := w0.nodes, root := w0.root, lcl := [] }).root with
+          | none => rw [hroot] at hsome; cases hsome
+          | some r => exact hI.root r hroot) hR.ranked hO
+
+/-- **one state**: every multi-phone arc leaving `s` is represented, no child of an earlier pnode is lost, all new pnodes
+belong to `s` -/
+theorem buildState_multi {g : Fsg} {li : LexIn} {tm : Nat → Nat} {lcs rcs : Array Nat} {nodes : Array PNode} {s : Nat}
+    (hlc : ctxList li (lcs.getD s 0) ≠ []) (inv : GInv g nodes) (hr : Ranked nodes) (htm : SsidTmat li tm)
+    (hpron : ∀ lid ∈ stateArcs g s, 1 ≤ (li.word (g.link lid).wid.toNat).pron.length)
+    (hown : ∀ x, x < nodes.size → (ndOf nodes x).owner ≠ s) :
+    (Grow nodes (buildState li g lcs rcs nodes s).1 ∧ ChildMono nodes (buildState li g lcs rcs nodes s).1 ∧
+      OwnSince nodes.size s (buildState li g lcs rcs nodes s).1) ∧
+    ∀ lid ∈ stateArcs g s, 2 ≤ (li.word (g.link lid).wid.toNat).pron.length →
+      MultiOK li g s (ctxList li (lcs.getD s 0)) (ctxList li (rcs.getD (g.link lid).dst 0))
+        (buildState li g lcs rcs nodes s).1 (buildState li g lcs rcs nodes s).2 lid := by
+  have h := foldl_inv_prefix
+    (fun done w => ((WInv g s nodes w ∧ WR w) ∧ WX li tm s (ctxList li (lcs.getD s 0)) w) ∧
+      (Grow nodes w.nodes ∧ ChildMono nodes w.nodes ∧ OwnSince nodes.size s w.nodes) ∧
+      ∀ lid ∈ done, 2 ≤ (li.word (g.link lid).wid.toNat).pron.length →
+        MultiOK li g s (ctxList li (lcs.getD s 0)) (ctxList li (rcs.getD (g.link lid).dst 0)) w.nodes w.root lid)
+    (fun w lid => addTrans li g s (ctxList li (lcs.getD s 0)) (ctxList li (rcs.getD (g.link lid).dst 0)) w lid)
+    (stateArcs g s) [] { nodes := nodes }
+    ⟨⟨⟨⟨inv, Ext.refl _, ovalid_none _ _, nil_all⟩, ⟨hr, nil_all⟩⟩,
+      ⟨⟨nil_all, nil_all, nil_all, nil_all⟩, fun x hx ho _ => absurd ho (hown x hx), nil_all, nil_all⟩⟩,
+     ⟨Grow.refl _, fun _ _ _ h => h, fun x h1 h2 => by
+        have h2' : x < nodes.size := h2
+        omega⟩, nil_all⟩
+    (fun d w lid hm hw => by
+      have hl := mem_stateArcs hm
+      obtain ⟨hG, hM⟩ := addTrans_grow0 (li := li) (rclist := ctxList li (rcs.getD (g.link lid).dst 0)) hlc w lid hl hw.1.1.1 hw.1.1.2
+      obtain ⟨hX, hC, hMu⟩ := addTrans_x (li := li) (tm := tm) (rclist := ctxList li (rcs.getD (g.link lid).dst 0)) hlc w lid hl
+        hw.1.1.1 hw.1.1.2 hw.1.2 htm (hpron lid hm)
+      refine ⟨⟨⟨addTrans_inv hlc w lid hl hw.1.1.1, addTrans_ranked hlc w lid hl hw.1.1.1 hw.1.1.2⟩, hX⟩,
+        ⟨hw.2.1.1.trans hG, fun p hp x hx => hC p (Nat.lt_of_lt_of_le hp hw.2.1.1.size) x (hw.2.1.2.1 p hp x hx),
+          addTrans_own hlc w lid hl hw.1.1.1 hw.1.1.2 hw.2.1.2.2⟩, ?_⟩
+      intro x hx h2
+      rcases List.mem_append.1 hx with h3 | h3
+      · exact (hw.2.2 x h3 h2).mono hG hC hM
+      · simp only [List.mem_singleton] at h3
+        subst h3
+        exact hMu h2)
+  simp only [List.nil_append] at h
+  exact ⟨h.2.1, h.2.2⟩
+
+/-- all states: every multi-phone arc is represented in the final array, under the final `root[s]` -/
+theorem buildFold_multi (li : LexIn) (g : Fsg) (tm : Nat → Nat) (hsil : li.sil < li.nCi) (htm : SsidTmat li tm)
+    (hpron : ∀ s, s < li.nState → ∀ lid ∈ stateArcs g s, 1 ≤ (li.word (g.link lid).wid.toNat).pron.length) :
+    ∀ n, n ≤ li.nState →
+      (∀ x, x < ((List.range n).foldl (buildStep li g) (#[], #[])).1.size →
+        (ndOf ((List.range n).foldl (buildStep li g) (#[], #[])).1 x).owner < n) ∧
+      ∀ s, s < n → ∀ lid ∈ stateArcs g s, 2 ≤ (li.word (g.link lid).wid.toNat).pron.length →
+        MultiOK li g s (ctxList li ((ctxFlags li g).1.getD s 0)) (ctxList li ((ctxFlags li g).2.getD (g.link lid).dst 0))
+          ((List.range n).foldl (buildStep li g) (#[], #[])).1 (((List.range n).foldl (buildStep li g) (#[], #[])).2.getD s none) lid := by
+  intro n
+  induction n with
+  | zero => intro _; exact ⟨fun x hx => by simp at hx, fun s hs => by omega⟩
+  | succ n ih =>
+    intro hn
+    obtain ⟨hi, hsz, hroots⟩ := buildFold_inv li g hsil n (by omega)
+    have hr := buildFold_ranked li g hsil n (by omega)
+    obtain ⟨hown, ih'⟩ := ih (by omega)
+    rw [List.range_succ, List.foldl_append]
+    simp only [List.foldl_cons, List.foldl_nil]
+    generalize (List.range n).foldl (buildStep li g) (#[], #[]) = acc at hi hsz hroots hr hown ih'
+    obtain ⟨⟨hG, hC, hO⟩, hQ⟩ := buildState_multi (li := li) (tm := tm) (lcs := (ctxFlags li g).1) (rcs := (ctxFlags li g).2)
+      (ctxList_ne_nil li g hsil (by omega : n < li.nState)) hi hr htm (hpron n (by omega))
+      (fun x hx h0 => by have := hown x hx; omega)
+    refine ⟨?_, ?_⟩
+    · intro x hx
+      show (ndOf (buildState li g (ctxFlags li g).1 (ctxFlags li g).2 acc.1 n).1 x).owner < n + 1
+      by_cases hlt : x < acc.1.size
+      · rw [(core_fields (hG.stable x hlt)).1]
+        have := hown x hlt; omega
+      · rw [hO x (by omega) hx]; omega
+    · intro s hs lid hlid h2
+      show MultiOK li g s _ _ (buildState li g (ctxFlags li g).1 (ctxFlags li g).2 acc.1 n).1
+        ((acc.2.push (buildState li g (ctxFlags li g).1 (ctxFlags li g).2 acc.1 n).2).getD s none) lid
+      by_cases hsn : s < n
+      · have : (acc.2.push (buildState li g (ctxFlags li g).1 (ctxFlags li g).2 acc.1 n).2).getD s none = acc.2.getD s none := by
+          simp [Array.getD, hsz, hsn, Array.getElem_push, Nat.lt_succ_of_lt hsn]
+        rw [this]
+        exact (ih' s hsn lid hlid h2).mono hG hC (rootMono_same hG (fun y hy => (hroots s hsn y hy).1))
+      · have hs' : s = n := by omega
+        subst hs'
+        have : (acc.2.push (buildState li g (ctxFlags li g).1 (ctxFlags li g).2 acc.1 s).2).getD s none =
+            (buildState li g (ctxFlags li g).1 (ctxFlags li g).2 acc.1 s).2 := by
+          simp [Array.getD, hsz, Array.getElem_push]
+        rw [this]
+        exact hQ lid hlid h2
+
+/-- **multi-phone words of the flat network are in the lextree the code builds**: for every word arc `lid` leaving a state `s`
+whose word has `n ≥ 2` phones, every left context `lc` of `s` and every right context `rc` of the arc's target state there is a
+root-to-leaf path `r → qf 1 → … → qf (n−2) → l` of pnodes — `r` a root of `root[s]` with `lc` in its context set and the ssid of
+`(p₀, lc, p₁)`, `qf j` word-internal pnodes with the ssid, transition matrix and entry penalty of position `j`, `l` a leaf
+carrying the arc with `rc` in its context set and the ssid of `(p_{n−1}, p_{n−2}, rc)` — every pnode a child (in the sense of
+`fsg_search_pnode_trans`) of the one before. -/
+theorem build_multi (li : LexIn) (g : Fsg) (tm : Nat → Nat) (hsil : li.sil < li.nCi) (htm : SsidTmat li tm)
+    (hpron : ∀ s, s < li.nState → ∀ lid ∈ stateArcs g s, 1 ≤ (li.word (g.link lid).wid.toNat).pron.length)
+    {s : Nat} (hs : s < li.nState) {lid : Nat} (hlid : lid ∈ stateArcs g s)
+    (h2 : 2 ≤ (li.word (g.link lid).wid.toNat).pron.length) {lc : Nat} (hlc : lc ∈ ctxList li ((ctxFlags li g).1.getD s 0)) {rc : Nat}
+    (hrc : rc ∈ ctxList li ((ctxFlags li g).2.getD (g.link lid).dst 0)) :
+    ∃ r ∈ (buildLexTree li g).roots s, ∃ (qf : Nat → Nat) (l : Nat),
+      Has ((buildLexTree li g).node r) s false 0
+        (li.ldiph ((li.word (g.link lid).wid.toNat).pron.headD 0) ((li.word (g.link lid).wid.toNat).pron.getD 1 0) lc)
+        (li.tmat ((li.word (g.link lid).wid.toNat).pron.headD 0)) (li.wip + li.pip) ((li.word (g.link lid).wid.toNat).pron.headD 0) (some lc) ∧
+      (∀ j, 1 ≤ j → j ≤ (li.word (g.link lid).wid.toNat).pron.length - 2 →
+        ((buildLexTree li g).node (qf j)).leaf = false ∧
+        ((buildLexTree li g).node (qf j)).ssid = li.internal (li.word (g.link lid).wid.toNat).dictWid j ∧
+        ((buildLexTree li g).node (qf j)).tmatid = li.tmat ((li.word (g.link lid).wid.toNat).pron.getD j 0) ∧
+        ((buildLexTree li g).node (qf j)).logs2prob = li.pip) ∧
+      Has ((buildLexTree li g).node l) s true lid
+        (li.rcSsid ((li.word (g.link lid).wid.toNat).pron.getD ((li.word (g.link lid).wid.toNat).pron.length - 2 + 1) 0)
+          ((li.word (g.link lid).wid.toNat).pron.getD ((li.word (g.link lid).wid.toNat).pron.length - 2) 0)
+          (li.rcMap ((li.word (g.link lid).wid.toNat).pron.getD ((li.word (g.link lid).wid.toNat).pron.length - 2 + 1) 0)
+            ((li.word (g.link lid).wid.toNat).pron.getD ((li.word (g.link lid).wid.toNat).pron.length - 2) 0) rc))
+        (li.tmat ((li.word (g.link lid).wid.toNat).pron.getD ((li.word (g.link lid).wid.toNat).pron.length - 2 + 1) 0))
+        (((g.link lid).logp >>> li.shift) + li.pip)
+        ((li.word (g.link lid).wid.toNat).pron.getD ((li.word (g.link lid).wid.toNat).pron.length - 2 + 1) 0) (some rc) ∧
+      ((li.word (g.link lid).wid.toNat).pron.length - 2 = 0 → l ∈ (buildLexTree li g).children r) ∧
+      (1 ≤ (li.word (g.link lid).wid.toNat).pron.length - 2 →
+        qf 1 ∈ (buildLexTree li g).children r ∧
+        (∀ j, 1 ≤ j → j < (li.word (g.link lid).wid.toNat).pron.length - 2 → qf (j + 1) ∈ (buildLexTree li g).children (qf j)) ∧
+        l ∈ (buildLexTree li g).children (qf ((li.word (g.link lid).wid.toNat).pron.length - 2))) := by
+  obtain ⟨lcl, qf, hroots, hcover, hpath, hleaf⟩ := (buildFold_multi li g tm hsil htm hpron li.nState (Nat.le_refl _)).2 s hs lid hlid h2
+  obtain ⟨hi, hsz, hrootsv⟩ := buildFold_inv li g hsil li.nState (Nat.le_refl _)
+  have hrk := buildFold_ranked li g hsil li.nState (Nat.le_refl _)
+  -- reachability in the final array is membership in the lists of the lextree
+  have hmemroot : ∀ r, Reach (buildLexTree li g).nodes ((buildLexTree li g).root.getD s none) r → r ∈ (buildLexTree li g).roots s := by
+    intro r hr
+    unfold LexTree.roots
+    rw [chain_eq]
+    refine reach_mem_chainA _ _ hr ?_
+    cases hroot : (buildLexTree li g).root.getD s none with
+    | none => exact chainEndsA_none _ _
+    | some y => exact ranked_ends (g := g) hi hrk (hrootsv s hs y hroot).1
+  have hmemchild : ∀ p x, p < (buildLexTree li g).nodes.size → ((buildLexTree li g).node p).leaf = false →
+      Child (buildLexTree li g).nodes p x → x ∈ (buildLexTree li g).children p := by
+    intro p x hp hlf hc
+    unfold LexTree.children
+    rw [hlf]
+    simp only [Bool.false_eq_true, if_false]
+    rw [chain_eq]
+    refine reach_mem_chainA _ _ hc ?_
+    cases hsucc : ((buildLexTree li g).node p).succ with
+    | none => exact chainEndsA_none _ _
+    | some y => exact ranked_ends (g := g) hi hrk (hi.succClosed hp hsucc)
+  obtain ⟨r, hrm, hrh⟩ := hcover lc hlc
+  obtain ⟨l, hl1, hl2, hl3, hl4⟩ := hleaf rc hrc
+  have hrlf : ((buildLexTree li g).node r).leaf = false := hrh.fields.2.1
+  refine ⟨r, hmemroot r (hroots r hrm).2, qf, l, hrh, fun j h1 h2' => (hpath.data j h1 h2').2, hl2,
+    fun h0 => hmemchild r l (hroots r hrm).1 hrlf (hl3 h0 r hrm), fun h1 => ⟨?_, ?_, ?_⟩⟩
+  · exact hmemchild r _ (hroots r hrm).1 hrlf (hpath.first h1 r hrm)
+  · intro j hj1 hj2
+    obtain ⟨d0, d1, _⟩ := hpath.data j hj1 (by omega)
+    exact hmemchild _ _ d0 d1 (hpath.link j hj1 hj2)
+  · obtain ⟨d0, d1, _⟩ := hpath.data _ h1 (Nat.le_refl _)
+    exact hmemchild _ _ d0 d1 (hl4 h1)
 
 end SSVerif.LexFlat
